@@ -5,8 +5,10 @@ import (
 	"go/constant"
 	"go/token"
 	"go/types"
+	"os"
 	"sort"
 	"strings"
+	"time"
 
 	"golang.org/x/tools/go/ssa"
 
@@ -17,12 +19,13 @@ import (
 func init() {
 	Register(&Prop{
 		ID: "C10",
-		Decides: "(H1) every insertion into a core.ParSignedDataSet in core/validatorapi is dominated by a checked Component.verifyPartialSig on the same key and the same (or identically constructed) value, and every set handed to c.subs is built in the calling function; " +
+		Decides: "(H1) on every path to an insertion into a core.ParSignedDataSet in core/validatorapi (helpers and closures followed through the static call chain) a Component.verifyPartialSig on the same key and the same (or identically constructed) value has succeeded, and every set handed to c.subs is made inside the component for this request; " +
 			"(H2) verifyPartialSig returns nil only through core.VerifyEth2SignedData against getVerifyShareFunc(pubkey) or under insecureTest, insecureTest is set only by NewComponentInsecure which has no non-test caller, the inner selection-proof verifications are skipped only under insecureTest; " +
-			"(H3) parsigex.ParSigEx.handle gates the duty and verifies every element of the received set before the subscriber fan-out, which receives the verified set; " +
+			"(H3) on every path of parsigex.ParSigEx.handle to the subscriber fan-out the duty was accepted by gaterFunc and verifyFunc succeeded on every element of the decoded set that the subscribers receive; " +
 			"(H4) NewEth2Verifier rejects unknown pubkey / share index and verifies against pubSharesByKey[pubkey][data.ShareIdx]; " +
-			"(H5) SubmitProposal/SubmitBlindedProposal admit a block only after propDataMatchesDuty succeeded against the agreed proposal, which returns nil only for equal hash tree roots and covers every proposal version; " +
-			"(H6) production wiring: the parsigex verifier, the duty gater and the validator API share table all come from the lock's 1-indexed public shares.",
+			"(H5) SubmitProposal/SubmitBlindedProposal admit a block only after propDataMatchesDuty succeeded against the agreed proposal, which returns nil only on paths on which the hash tree roots of the same-fork payloads of both sides were found equal, for every proposal version; " +
+			"(H6) production wiring: the parsigex verifier, the duty gater and the validator API share table all come from the lock's 1-indexed public shares. " +
+			"All of H1..H6 are decided by path-sensitive fact propagation over SSA (c10sym.go), not by block shapes.",
 		NotDecided: "what 'verifies' means cryptographically (BLS, domains, signing roots: C08/C09), and that the beacon-node answers used for key lookup are right.",
 		Run:        c10,
 		Mutants:    c10Mutants,
@@ -50,12 +53,17 @@ var c10Inner = map[string]string{
 }
 
 func c10(c *rt.Ctx) {
-	c.Rule("H1", 20, func() { c10H1(c) })
-	c.Rule("H2", 9, func() { c10H2(c) })
-	c.Rule("H3", 3, func() { c10H3(c) })
-	c.Rule("H4", 5, func() { c10H4(c) })
-	c.Rule("H5", 20, func() { c10H5(c) })
-	c.Rule("H6", 5, func() { c10H6(c) })
+	timed := func(id string, min int, body func()) {
+		start := time.Now()
+		c.Rule(id, min, body)
+		c10Debug("rule %s took %v", id, time.Since(start))
+	}
+	timed("H1", 20, func() { c10H1(c) })
+	timed("H2", 9, func() { c10H2(c) })
+	timed("H3", 3, func() { c10H3(c) })
+	timed("H4", 5, func() { c10H4(c) })
+	timed("H5", 20, func() { c10H5(c) })
+	timed("H6", 5, func() { c10H6(c) })
 }
 
 // ---------------------------------------------------------------------------------------------
@@ -117,13 +125,20 @@ func c10ParamOfType(fn *ssa.Function, short string) *ssa.Parameter {
 }
 
 // c10Immutable: the local is written exactly once as a whole and never through a field/element
-// address, and its address does not escape into a call.
+// address, and its address does not escape into a call. Closures may capture it as long as they
+// only read it.
 func c10Immutable(a *ssa.Alloc) bool {
-	stores := 0
-	var ok func(v ssa.Value, root bool) bool
-	ok = func(v ssa.Value, root bool) bool {
+	n, ok := c10CellWrites(a)
+	return ok && n == 1
+}
+
+// c10CellWrites counts the whole-value stores into the local; ok is false if it is written through a
+// field/element address or its address escapes (other than into closures that only read it).
+func c10CellWrites(a *ssa.Alloc) (stores int, ok bool) {
+	var use func(v ssa.Value, root bool, d int) bool
+	use = func(v ssa.Value, root bool, d int) bool {
 		refs := v.Referrers()
-		if refs == nil {
+		if refs == nil || d > 6 {
 			return false
 		}
 		for _, ref := range *refs {
@@ -141,222 +156,41 @@ func c10Immutable(a *ssa.Alloc) bool {
 					return false
 				}
 			case *ssa.FieldAddr:
-				if !ok(x, false) {
+				if !use(x, false, d+1) {
 					return false
 				}
 			case *ssa.IndexAddr:
-				if !ok(x, false) {
+				if !use(x, false, d+1) {
 					return false
 				}
 			case *ssa.Slice, *ssa.DebugRef:
 				// a slice of an array local only reads here (passed to pure converters)
+			case *ssa.MakeClosure:
+				fn, isFn := x.Fn.(*ssa.Function)
+				if !isFn {
+					return false
+				}
+				for i, b := range x.Bindings {
+					if b != v {
+						continue
+					}
+					if i >= len(fn.FreeVars) || !use(fn.FreeVars[i], root, d+1) {
+						return false
+					}
+				}
 			default:
 				return false
 			}
 		}
 		return true
 	}
-	return ok(a, true) && stores == 1
-}
-
-// c10Same: a and b denote the same value: the identical SSA value, or an.Equiv values whose
-// differing parts are loads of immutable locals and calls of pure core.New* constructors.
-func c10Same(a, b ssa.Value) bool {
-	if an.Unwrap(a) == an.Unwrap(b) {
-		return true
-	}
-	if !an.Equiv(a, b) {
-		return false
-	}
-	good := true
-	seen := map[ssa.Value]bool{}
-	var walk func(v ssa.Value, d int)
-	walk = func(v ssa.Value, d int) {
-		v = an.Unwrap(v)
-		if seen[v] || d > 8 {
-			return
-		}
-		seen[v] = true
-		switch x := v.(type) {
-		case *ssa.Alloc:
-			if !c10Immutable(x) {
-				good = false
-			}
-		case *ssa.UnOp:
-			walk(x.X, d+1)
-		case *ssa.FieldAddr:
-			walk(x.X, d+1)
-		case *ssa.Field:
-			walk(x.X, d+1)
-		case *ssa.Extract:
-			walk(x.Tuple, d+1)
-		case *ssa.Call:
-			f := x.Call.StaticCallee()
-			if f == nil || !strings.HasPrefix(an.FuncName(f), "core.New") && an.FuncName(f) != "core.DutyFromProto" {
-				good = false
-				return
-			}
-			for _, arg := range x.Call.Args {
-				walk(arg, d+1)
-			}
-		}
-	}
-	walk(a, 0)
-	walk(b, 0)
-	return good
-}
-
-// c10Ctor returns the static constructor call that produced v (looking through tuple extraction).
-func c10Ctor(v ssa.Value) *ssa.Call {
-	v = an.Unwrap(v)
-	if ex, ok := v.(*ssa.Extract); ok {
-		v = ex.Tuple
-	}
-	call, ok := v.(*ssa.Call)
-	if !ok || call.Call.StaticCallee() == nil {
-		return nil
-	}
-	return call
-}
-
-// c10Reach: can control reach block `to` from the top of `from` without entering blocks in avoid
-// and without following pruned edges.
-func c10Reach(from, to *ssa.BasicBlock, avoid map[*ssa.BasicBlock]bool, prune func(b *ssa.BasicBlock, succ int) bool) bool {
-	seen := map[*ssa.BasicBlock]bool{}
-	var walk func(b *ssa.BasicBlock) bool
-	walk = func(b *ssa.BasicBlock) bool {
-		if seen[b] || avoid[b] {
-			return false
-		}
-		seen[b] = true
-		if b == to {
-			return true
-		}
-		for i, s := range b.Succs {
-			if prune != nil && prune(b, i) {
-				continue
-			}
-			if walk(s) {
-				return true
-			}
-		}
-		return false
-	}
-	return walk(from)
-}
-
-// c10InsecurePrune prunes the edges taken when a load of Component.insecureTest is true.
-func c10InsecurePrune(fn *ssa.Function, key string) (func(b *ssa.BasicBlock, succ int) bool, int) {
-	type edge struct {
-		b *ssa.BasicBlock
-		i int
-	}
-	edges := map[edge]bool{}
-	for _, in := range an.Instrs(fn, false) {
-		if !isLoadOfField(in, key) {
-			continue
-		}
-		v := in.(ssa.Value)
-		for _, cd := range an.CondsOn(fn, v) {
-			if cd.Other != nil {
-				continue
-			}
-			t := cd.Succ(true)
-			for i, s := range cd.If.Block().Succs {
-				if s == t {
-					edges[edge{cd.If.Block(), i}] = true
-				}
-			}
-		}
-	}
-	return func(b *ssa.BasicBlock, i int) bool { return edges[edge{b, i}] }, len(edges)
-}
-
-// c10ErrChecked: every error status of g is branched on after g with the failing edge unable to
-// reach sink without re-executing g.
-func c10ErrChecked(g ssa.CallInstruction, sink ssa.Instruction) (bool, string) {
-	errs, _ := an.StatusOf(g, -1)
-	if len(errs) == 0 {
-		return false, "error result of the check is discarded"
-	}
-	avoid := map[*ssa.BasicBlock]bool{g.Block(): true}
-	for _, e := range errs {
-		found := false
-		for _, cd := range an.CondsOn(g.Parent(), e) {
-			if cd.Other == nil || !an.IsNilConst(cd.Other) || !an.Dominates(g, cd.If) {
-				continue
-			}
-			var fail *ssa.BasicBlock
-			switch cd.Op {
-			case token.NEQ:
-				fail = cd.Succ(true)
-			case token.EQL:
-				fail = cd.Succ(false)
-			default:
-				continue
-			}
-			if fail == sink.Block() || c10Reach(fail, sink.Block(), avoid, nil) {
-				continue
-			}
-			found = true
-		}
-		if !found {
-			return false, "no branch on the check's error cuts the failing edge off from the sink"
-		}
-	}
-	return true, ""
-}
-
-// c10GuardedUnless: every path from the function entry to sink passes the checked call g, except
-// paths that take an insecureTest==true edge.
-func c10GuardedUnless(g ssa.CallInstruction, sink ssa.Instruction, prune func(b *ssa.BasicBlock, succ int) bool) (bool, string) {
-	if ok, why := c10ErrChecked(g, sink); !ok {
-		return false, why
-	}
-	fn := g.Parent()
-	if g.Block() == sink.Block() {
-		if an.Dominates(g, sink) {
-			return true, ""
-		}
-		return false, "check comes after the sink"
-	}
-	if c10Reach(fn.Blocks[0], sink.Block(), map[*ssa.BasicBlock]bool{g.Block(): true}, prune) {
-		return false, "a path that is not conditional on insecureTest reaches the sink without the check"
-	}
-	return true, ""
-}
-
-type c10Ret struct {
-	v  ssa.Value
-	at ssa.Instruction // the return, or the last instruction of the phi predecessor
-}
-
-// c10ErrReturns lists the values returned in the (last) error result of fn, phi edges expanded.
-func c10ErrReturns(c *rt.Ctx, fn *ssa.Function) []c10Ret {
-	if fn.Recover != nil {
-		c.Bail("%s has deferred calls: results are spilled, return analysis not applicable", an.FuncName(fn))
-	}
-	var out []c10Ret
-	for _, r := range an.Returns(fn) {
-		if len(r.Results) == 0 || !an.IsErrorType(r.Results[len(r.Results)-1].Type()) {
-			c.Bail("%s does not return an error as last result", an.FuncName(fn))
-		}
-		v := r.Results[len(r.Results)-1]
-		if phi, ok := v.(*ssa.Phi); ok && phi.Block() == r.Block() {
-			for i, e := range phi.Edges {
-				p := phi.Block().Preds[i]
-				out = append(out, c10Ret{e, p.Instrs[len(p.Instrs)-1]})
-			}
-			continue
-		}
-		out = append(out, c10Ret{v, r})
-	}
-	return out
+	ok = use(a, true, 0)
+	return stores, ok
 }
 
 // c10NonNil: v cannot be nil where it is returned: built by errors.New/Wrap, or returned on the
 // `v != nil` edge of a branch.
-func c10NonNil(v ssa.Value, at ssa.Instruction) bool {
+func c10NonNilAt(v ssa.Value, at ssa.Instruction) bool {
 	if call, ok := v.(*ssa.Call); ok {
 		if an.Static("app/errors.New", "app/errors.Wrap")(&call.Call) {
 			return true
@@ -390,199 +224,634 @@ func c10IsNilConst(v ssa.Value) bool {
 	return ok && k.Value == nil
 }
 
-// c10CommaOkChecked: the ok of a `v, ok := m[k]` / type assertion tuple is branched on and its false
-// edge cannot reach sink.
-func c10CommaOkChecked(tuple ssa.Value, sink ssa.Instruction) bool {
-	refs := tuple.Referrers()
-	if refs == nil {
-		return false
+// ---------------------------------------------------------------------------------------------
+// sites: instructions seen from an entry point through static in-package calls
+
+// c10At is an instruction together with the static call chain (innermost call first) through which
+// its function was entered from the entry point under analysis.
+type c10At struct {
+	in ssa.Instruction
+	ch c10Chain
+}
+
+// level k of a site: 0 is the function of the instruction itself, k>0 the k-th caller. Returns the
+// function, the instruction that stands for the site there, and the chain above it.
+func (a c10At) level(k int) (*ssa.Function, ssa.Instruction, c10Chain) {
+	if k == 0 {
+		return a.in.Parent(), a.in, a.ch
 	}
-	for _, ref := range *refs {
-		ex, ok := ref.(*ssa.Extract)
-		if !ok || ex.Index != 1 {
-			continue
-		}
-		for _, cd := range an.CondsOn(sink.Parent(), ex) {
-			if cd.Other != nil {
-				continue
-			}
-			if cd.If.Block().Dominates(sink.Block()) && an.EdgeCuts(cd.Succ(false), sink, nil) && cd.Succ(false) != sink.Block() {
-				return true
-			}
+	return a.ch[k-1].Parent(), a.ch[k-1], a.ch[k:]
+}
+
+// async: the site is reached through a go or defer statement (its order relative to the guards of
+// the callers is not the program order).
+func (a c10At) async() bool {
+	for _, call := range a.ch {
+		switch call.(type) {
+		case *ssa.Go, *ssa.Defer:
+			return true
 		}
 	}
 	return false
 }
 
-// c10SubsCalls returns the calls through the named subs field in fn.
-func c10SubsCalls(fn *ssa.Function, key string) []ssa.CallInstruction {
-	return an.Calls(fn, an.FieldCall(key), false)
+// c10Down lists the instructions satisfying match in entry and in every in-package function reachable
+// from it through static calls (helpers, directly called closures).
+func c10Down(entry *ssa.Function, match func(ssa.Instruction) bool) []c10At {
+	var out []c10At
+	onStack := map[*ssa.Function]bool{entry: true}
+	var walk func(fn *ssa.Function, ch c10Chain)
+	walk = func(fn *ssa.Function, ch c10Chain) {
+		for _, in := range an.Instrs(fn, false) {
+			if match(in) {
+				out = append(out, c10At{in, ch})
+			}
+			call, ok := in.(ssa.CallInstruction)
+			if !ok {
+				continue
+			}
+			f := c10Callee(call)
+			if f == nil || !c10SamePkg(f, entry) || onStack[f] || len(ch) >= 4 {
+				continue
+			}
+			onStack[f] = true
+			walk(f, ch.push(call))
+			delete(onStack, f)
+		}
+	}
+	walk(entry, nil)
+	return out
+}
+
+// c10Entries lists the functions of pkg that can be entered from outside the static in-package call
+// graph: exported functions and methods, functions without a static in-package caller (handlers
+// registered as method values, interface implementations) and functions used as values.
+func c10Entries(pkg *ssa.Package) []*ssa.Function {
+	fns := an.PkgFuncs(pkg)
+	called, escapes := map[*ssa.Function]bool{}, map[*ssa.Function]bool{}
+	for _, g := range fns {
+		for _, in := range an.Instrs(g, false) {
+			if mc, ok := in.(*ssa.MakeClosure); ok {
+				f, _ := mc.Fn.(*ssa.Function)
+				for _, ref := range *mc.Referrers() {
+					switch r := ref.(type) {
+					case *ssa.DebugRef:
+					case ssa.CallInstruction:
+						if r.Common().Value != ssa.Value(mc) {
+							escapes[an.Orig(f)] = true
+						}
+					default:
+						escapes[an.Orig(f)] = true
+					}
+				}
+				continue
+			}
+			var calleeV ssa.Value
+			if call, ok := in.(ssa.CallInstruction); ok {
+				if f := c10Callee(call); f != nil {
+					called[f] = true
+				}
+				calleeV = call.Common().Value
+			}
+			for _, op := range an.Operands(in) {
+				if f, ok := op.(*ssa.Function); ok && op != calleeV {
+					escapes[an.Orig(f)] = true
+				}
+			}
+		}
+	}
+	var out []*ssa.Function
+	for _, f := range fns {
+		exported := f.Parent() == nil && f.Object() != nil && f.Object().Exported()
+		if exported || !called[f] || escapes[f] {
+			out = append(out, f)
+		}
+	}
+	return out
+}
+
+// c10Slim makes the walker record only the facts about its tracked calls (and the insecureTest flag):
+// used as a second attempt when a function has too many distinct paths.
+func c10Slim(w *c10W) bool {
+	if w.keep != nil || w.tracked == nil {
+		return false
+	}
+	tracked := w.tracked
+	w.keep = func(t *c10T) bool {
+		return t.op == "forall" || t.op == "forall?" || c10Mentions(t, func(u *c10T) bool { return tracked(u) || u.is("fld", "insecureTest") })
+	}
+	w.overflow, w.states, w.seen = false, 0, nil
+	return true
+}
+
+// c10SuccessStates returns the path states of the returns of w.fn whose status (last result: error
+// nil / bool true) may be success, with that success assumed.
+func c10SuccessStates(w *c10W) (states []*c10State, rets []*ssa.Return) {
+	w.visit = func(in ssa.Instruction, st *c10State) bool {
+		r, ok := in.(*ssa.Return)
+		if !ok {
+			return false
+		}
+		rv := returnValues(r)
+		if len(rv) == 0 {
+			return true
+		}
+		status := rv[len(rv)-1]
+		isErr := an.IsErrorType(status.Type())
+		a := w.cx(st).eval(status)
+		if isErr && a == c10NonNil || !isErr && a == c10False {
+			return true
+		}
+		st = st.clone()
+		if isErr {
+			w.cx(st).setNil(status, true)
+		} else if b, ok := status.Type().Underlying().(*types.Basic); ok && b.Kind() == types.Bool {
+			w.cx(st).assume(status, true)
+		}
+		states = append(states, st)
+		rets = append(rets, r)
+		return true
+	}
+	w.run(c10NewState())
+	if w.overflow && c10Slim(w) {
+		return c10SuccessStates(w)
+	}
+	return
+}
+
+// c10StatesAtSite returns the path states in which the site executes, seen from the entry point of its
+// call chain: the outermost function is explored from its entry to the call that leads towards the
+// site, the callee is explored from its entry with the facts known at that call, and so on down to the
+// instruction itself. The states therefore carry the facts established on every level of the chain
+// (a guard in the caller, in the helper, or split between them). mk creates the walker of one level.
+func c10StatesAtSite(mk func(fn *ssa.Function, ch c10Chain) *c10W, site c10At) (states []*c10State, w *c10W, overflow bool) {
+	cur := []*c10State{c10NewState()}
+	for k := len(site.ch); k >= 0; k-- {
+		fn, sink, ch := site.level(k)
+		w = mk(fn, ch)
+		for attempt := 0; attempt < 2; attempt++ {
+			var next []*c10State
+			seen := map[string]bool{}
+			w.visit = func(in ssa.Instruction, st *c10State) bool {
+				if in == sink {
+					fp := st.fingerprint()
+					if !seen[fp] {
+						seen[fp] = true
+						next = append(next, st.clone())
+					}
+				}
+				return false
+			}
+			for _, st := range cur {
+				w.run(st.clone())
+			}
+			if w.overflow && c10Slim(w) {
+				continue
+			}
+			cur = next
+			break
+		}
+		if w.overflow {
+			return nil, w, true
+		}
+		if len(cur) == 0 {
+			return nil, w, false
+		}
+	}
+	return cur, w, false
+}
+
+// c10SuccessFacts lists the facts of st that say a call named name succeeded (error nil / result true).
+func c10SuccessFacts(st *c10State, name string) []*c10T {
+	var keys []string
+	for k := range st.facts {
+		keys = append(keys, k)
+	}
+	sort.Strings(keys)
+	var out []*c10T
+	for _, k := range keys {
+		f := st.facts[k]
+		if f.a != c10Nil && f.a != c10True {
+			continue
+		}
+		t := f.t
+		if t.is("ext") && len(t.args) == 1 {
+			t = t.args[0]
+		}
+		if (t.op == "call" || t.op == "dyn" || t.op == "invoke") && c10CallName(t) == name {
+			out = append(out, t)
+		}
+	}
+	return out
+}
+
+// c10AnyFacts lists the call terms named name about which st knows anything (success or failure).
+func c10AnyFacts(st *c10State, name string) (out []c10Fact) {
+	for _, f := range st.facts {
+		t := f.t
+		if t.is("ext") && len(t.args) == 1 {
+			t = t.args[0]
+		}
+		if (t.op == "call" || t.op == "dyn" || t.op == "invoke") && c10CallName(t) == name {
+			out = append(out, c10Fact{t, f.a})
+		}
+	}
+	return
+}
+
+// c10ParamIdx returns the index of the unique parameter of the signature with the given short type
+// name, counting the receiver of a method as index 0 (the layout of static call arguments).
+func c10ParamIdx(sig *types.Signature, short string, static bool) int {
+	off := 0
+	if static && sig.Recv() != nil {
+		off = 1
+	}
+	idx := -1
+	for i := 0; i < sig.Params().Len(); i++ {
+		t := sig.Params().At(i).Type()
+		if _, isPtr := t.(*types.Pointer); isPtr {
+			continue
+		}
+		if an.TypeName(t) == short {
+			if idx >= 0 {
+				return -1
+			}
+			idx = i + off
+		}
+	}
+	return idx
+}
+
+// c10InsecureBase: the analysis of the verification paths assumes insecureTest is false.
+func c10InsecureBase(t *c10T) c10Abs {
+	if t.is("fld", "insecureTest") {
+		return c10False
+	}
+	return c10U
+}
+
+func c10Named(names ...string) func(*c10T) bool {
+	return func(t *c10T) bool {
+		if t.op != "call" && t.op != "dyn" && t.op != "invoke" {
+			return false
+		}
+		n := c10CallName(t)
+		for _, w := range names {
+			if n == w {
+				return true
+			}
+		}
+		return false
+	}
+}
+
+func c10Debug(format string, a ...any) {
+	if os.Getenv("C10DEBUG") != "" {
+		fmt.Fprintf(os.Stderr, "C10DEBUG "+format+"\n", a...)
+	}
+}
+
+func c10DebugState(st *c10State) {
+	if os.Getenv("C10DEBUG") == "" {
+		return
+	}
+	var keys []string
+	for k, f := range st.facts {
+		keys = append(keys, "    "+k+" = "+f.a.String())
+	}
+	sort.Strings(keys)
+	fmt.Fprintf(os.Stderr, "  taint=%v\n%s\n", st.taint, strings.Join(keys, "\n"))
+}
+
+// verdict of one obligation
+type c10Verdict struct {
+	ok, unsure bool
+	why        string
+	pos        token.Pos
+}
+
+func (v c10Verdict) report(c *rt.Ctx, construct string, pos token.Pos) {
+	switch {
+	case v.ok:
+		c.Good(construct, pos, "")
+	case v.unsure:
+		c.Unsure(construct, pos, v.why)
+	default:
+		c.Bad(construct, pos, v.why)
+	}
 }
 
 // ---------------------------------------------------------------------------------------------
 // H1
 
-// c10LocalSet: v is a ParSignedDataSet made in this function (directly, or taken out of a local
-// map of sets whose every member was made in this function). The second result is true when the
-// origin is a call (a helper may build the set: not decidable here, reported as undecided).
-func c10LocalSet(v ssa.Value, seen map[ssa.Value]bool) (ok bool, unsure bool, why string) {
+// c10Origin decides where a ParSignedDataSet comes from: a set handed to the subscribers (or
+// inserted into) must have been made inside the component, so that every entry went through one of the
+// checked insertions. Sets may travel through helper parameters, helper results and local maps of sets.
+type c10Origin struct {
+	subsKey string
+	seen    map[string]bool
+}
+
+func (o *c10Origin) mark(v ssa.Value, ch c10Chain, kind string) bool {
+	k := fmt.Sprintf("%s%p%s", kind, v, ch.id())
+	if o.seen[k] {
+		return true
+	}
+	o.seen[k] = true
+	return false
+}
+
+func (o *c10Origin) isSubs(cc *ssa.CallCommon) bool {
+	if cc.StaticCallee() != nil || cc.IsInvoke() {
+		return false
+	}
+	k, _, ok := an.FieldOf(cc.Value)
+	return ok && k == o.subsKey
+}
+
+// stores lists the values stored into a local variable.
+func c10Stores(a *ssa.Alloc) []ssa.Value {
+	var out []ssa.Value
+	for _, ref := range *a.Referrers() {
+		if st, ok := ref.(*ssa.Store); ok && st.Addr == ssa.Value(a) {
+			out = append(out, st.Val)
+		}
+	}
+	return out
+}
+
+func (o *c10Origin) viaParam(p *ssa.Parameter, ch c10Chain, next func(ssa.Value, c10Chain) (bool, bool, string)) (bool, bool, string) {
+	fn := p.Parent()
+	if len(ch) > 0 && c10Callee(ch[0]) == an.Orig(fn) {
+		for i, q := range fn.Params {
+			if q == p && i < len(ch[0].Common().Args) {
+				return next(ch[0].Common().Args[i], ch[1:])
+			}
+		}
+	}
+	if fn.Parent() == nil && fn.Object() != nil && fn.Object().Exported() {
+		return false, false, "set is a parameter of an exported function"
+	}
+	return false, true, "set is a parameter of " + an.FuncName(fn) + ", which is entered from outside the static call graph"
+}
+
+func (o *c10Origin) viaResults(call *ssa.Call, idx int, ch c10Chain, next func(ssa.Value, c10Chain) (bool, bool, string)) (bool, bool, string) {
+	if g := call.Call.StaticCallee(); g != nil && an.FuncName(g) == "maps.Clone" && len(call.Call.Args) == 1 {
+		return next(call.Call.Args[0], ch) // a copy has the entries of the original
+	}
+	f := c10Callee(call)
+	if f == nil || !c10SamePkg(f, call.Parent()) || len(ch) >= 4 || ch.has(f) {
+		return false, true, "set is produced by " + an.CalleeName(&call.Call)
+	}
+	n := 0
+	for _, r := range an.Returns(f) {
+		rv := returnValues(r)
+		if idx >= len(rv) {
+			continue
+		}
+		if k, isC := rv[idx].(*ssa.Const); isC && k.Value == nil {
+			continue // nil set of an error return
+		}
+		n++
+		if ok, u, why := next(rv[idx], ch.push(call)); !ok {
+			return false, u, why
+		}
+	}
+	if n == 0 {
+		return false, true, "set is produced by " + an.CalleeName(&call.Call) + " which never returns one"
+	}
+	return true, false, ""
+}
+
+// set: v is a ParSignedDataSet made inside the component.
+func (o *c10Origin) set(v ssa.Value, ch c10Chain) (ok bool, unsure bool, why string) {
 	v = an.Unwrap(v)
-	if seen[v] {
+	if o.mark(v, ch, "s") {
 		return true, false, ""
 	}
-	seen[v] = true
 	switch x := v.(type) {
 	case *ssa.MakeMap:
 		if !c10IsSet(x.Type()) {
 			return false, false, "set is made with another type"
 		}
-		for _, ref := range *x.Referrers() {
-			switch r := ref.(type) {
-			case *ssa.MapUpdate, *ssa.Lookup, *ssa.Range, *ssa.Phi, *ssa.DebugRef:
-			case ssa.CallInstruction:
-				cc := r.Common()
-				if b, isB := cc.Value.(*ssa.Builtin); isB && b.Name() == "len" {
-					continue
-				}
-				if cc.StaticCallee() == nil && !cc.IsInvoke() {
-					if k, _, isF := an.FieldOf(cc.Value); isF && k == c10Comp+".subs" {
-						continue
-					}
-				}
-				if c10ReadOnlyArg(cc, x) {
-					continue
-				}
-				return false, true, "set is handed to " + an.CalleeName(cc) + " which might add entries"
-			default:
-				return false, true, fmt.Sprintf("set escapes through %T", ref)
-			}
-		}
-		return true, false, ""
+		return o.escapes(x, x.Referrers(), ch)
 	case *ssa.Phi:
 		for _, e := range x.Edges {
-			if ok, u, why := c10LocalSet(e, seen); !ok {
+			if ok, u, why := o.set(e, ch); !ok {
 				return false, u, why
 			}
 		}
 		return true, false, ""
 	case *ssa.Lookup:
-		return c10LocalSetMap(x.X, seen)
+		return o.mapOfSets(x.X, ch)
 	case *ssa.Extract:
 		switch t := x.Tuple.(type) {
 		case *ssa.Lookup:
 			if x.Index == 0 {
-				return c10LocalSetMap(t.X, seen)
+				return o.mapOfSets(t.X, ch)
 			}
 		case *ssa.Next:
 			if rg, isR := t.Iter.(*ssa.Range); isR && x.Index == 2 {
-				return c10LocalSetMap(rg.X, seen)
+				return o.mapOfSets(rg.X, ch)
 			}
 		case *ssa.Call:
-			return false, true, "set is produced by " + an.CalleeName(&t.Call)
+			return o.viaResults(t, x.Index, ch, o.set)
 		}
 	case *ssa.Call:
-		return false, true, "set is produced by " + an.CalleeName(&x.Call)
+		return o.viaResults(x, 0, ch, o.set)
 	case *ssa.Parameter:
-		// a fan-out helper: every in-package static call site must pass a set built by the caller
-		fn := x.Parent()
-		idx := -1
-		for i, p := range fn.Params {
-			if p == x {
-				idx = i
-			}
-		}
-		if fn.Pkg == nil || idx < 0 || fn.Parent() != nil || (fn.Object() != nil && fn.Object().Exported()) {
-			return false, false, "set is a parameter of an exported function or literal"
-		}
-		n := 0
-		for _, g := range an.PkgFuncs(fn.Pkg) {
-			for _, in := range an.Instrs(g, false) {
-				for _, op := range an.Operands(in) {
-					if op != ssa.Value(fn) {
+		return o.viaParam(x, ch, o.set)
+	case *ssa.UnOp:
+		if x.Op == token.MUL {
+			if al, isAl := x.X.(*ssa.Alloc); isAl {
+				vals := c10Stores(al)
+				for _, s := range vals {
+					if k, isC := s.(*ssa.Const); isC && k.Value == nil {
 						continue
 					}
-					ci, isCall := in.(ssa.CallInstruction)
-					if !isCall || ci.Common().StaticCallee() != fn || idx >= len(ci.Common().Args) {
-						return false, true, "function receiving the set is used as a value"
-					}
-					n++
-					if ok, u, why := c10LocalSet(ci.Common().Args[idx], seen); !ok {
+					if ok, u, why := o.set(s, ch); !ok {
 						return false, u, why
 					}
 				}
+				if len(vals) > 0 {
+					return true, false, ""
+				}
 			}
 		}
-		if n == 0 {
-			return false, true, "function receiving the set has no caller in the package"
+	case *ssa.Const:
+		if x.Value == nil {
+			return true, false, "" // the nil set has no entries
 		}
+	}
+	if _, _, fromField := an.FieldOf(v); fromField {
+		return false, false, "set is read from component state, not built for this request"
+	}
+	return false, true, fmt.Sprintf("origin of the set is not followed (%T)", v)
+}
+
+// escapes checks the uses of a set (a made map, or a helper parameter holding one): reading,
+// inserting (every insertion is checked on its own), handing to the subscribers, passing on to
+// in-package helpers that do the same.
+func (o *c10Origin) escapes(self ssa.Value, refs *[]ssa.Instruction, ch c10Chain) (bool, bool, string) {
+	if refs == nil {
 		return true, false, ""
 	}
-	return false, false, "set is not built in this function"
-}
-
-// c10ReadOnlyArg: set is passed to an in-package static callee whose parameter is only read
-// (looked up, ranged, measured, forwarded to the subscribers).
-func c10ReadOnlyArg(cc *ssa.CallCommon, set ssa.Value) bool {
-	f := cc.StaticCallee()
-	if f == nil || f.Blocks == nil || f.Pkg == nil || an.Short(f.Pkg.Pkg.Path()) != c10Vapi {
-		return false
-	}
-	for i, a := range cc.Args {
-		if a != set {
-			continue
-		}
-		if i >= len(f.Params) {
-			return false
-		}
-		for _, ref := range *f.Params[i].Referrers() {
-			switch r := ref.(type) {
-			case *ssa.Lookup, *ssa.Range, *ssa.DebugRef:
-			case ssa.CallInstruction:
-				rc := r.Common()
-				if b, isB := rc.Value.(*ssa.Builtin); isB && b.Name() == "len" {
-					continue
-				}
-				if rc.StaticCallee() == nil && !rc.IsInvoke() {
-					if k, _, isF := an.FieldOf(rc.Value); isF && k == c10Comp+".subs" {
-						continue
-					}
-				}
-				return false
-			default:
-				return false
-			}
-		}
-	}
-	return true
-}
-
-func c10LocalSetMap(m ssa.Value, seen map[ssa.Value]bool) (bool, bool, string) {
-	mm, ok := m.(*ssa.MakeMap)
-	if !ok {
-		if _, isCall := an.Unwrap(m).(*ssa.Call); isCall {
-			return false, true, "set is taken from a map produced by a callee"
-		}
-		return false, false, "set is taken from a map that is not made in this function"
-	}
-	mt, ok := mm.Type().Underlying().(*types.Map)
-	if !ok || !c10IsSet(mt.Elem()) {
-		return false, false, "set is taken from a map with another element type"
-	}
-	for _, ref := range *mm.Referrers() {
+	for _, ref := range *refs {
 		switch r := ref.(type) {
 		case *ssa.MapUpdate:
-			if r.Map != ssa.Value(mm) {
-				return false, true, "map of sets is stored elsewhere"
+			if r.Value == self && r.Map != self {
+				if ok, u, why := o.mapOfSets(r.Map, ch); !ok {
+					return false, u, why
+				}
 			}
-			if ok, u, why := c10LocalSet(r.Value, seen); !ok {
-				return false, u, why
+		case *ssa.Lookup, *ssa.Range, *ssa.Phi, *ssa.DebugRef, *ssa.Return, *ssa.MakeInterface, *ssa.ChangeType:
+		case *ssa.Store:
+			if r.Val == self {
+				if _, isAl := r.Addr.(*ssa.Alloc); !isAl {
+					return false, true, "set is stored outside the function"
+				}
 			}
-		case *ssa.Lookup, *ssa.Range, *ssa.DebugRef:
 		case ssa.CallInstruction:
-			if b, isB := r.Common().Value.(*ssa.Builtin); isB && (b.Name() == "len") {
+			cc := r.Common()
+			if b, isB := cc.Value.(*ssa.Builtin); isB && (b.Name() == "len" || b.Name() == "delete") {
 				continue
 			}
-			return false, true, "map of sets is handed to " + an.CalleeName(r.Common())
+			if o.isSubs(cc) {
+				continue
+			}
+			if ok, u, why := o.passed(r, self, ch, false); !ok {
+				return false, u, why
+			}
+		default:
+			return false, true, fmt.Sprintf("set escapes through %T", ref)
+		}
+	}
+	return true, false, ""
+}
+
+// c10ReadOnlyCallee: library functions that only read the maps they are given.
+func c10ReadOnlyCallee(cc *ssa.CallCommon) bool {
+	f := cc.StaticCallee()
+	if f == nil {
+		return false
+	}
+	switch n := an.FuncName(f); {
+	case n == "maps.Keys", n == "maps.Values", n == "maps.All", n == "maps.Clone", n == "maps.Equal", n == "maps.EqualFunc":
+		return true
+	case strings.HasPrefix(n, "fmt."), strings.HasPrefix(n, "app/z."), strings.HasPrefix(n, "app/log."):
+		return true
+	}
+	return false
+}
+
+// passed: self is an argument of a call to an in-package helper whose parameter is used harmlessly.
+func (o *c10Origin) passed(call ssa.CallInstruction, self ssa.Value, ch c10Chain, isMapOfSets bool) (bool, bool, string) {
+	if c10ReadOnlyCallee(call.Common()) {
+		return true, false, ""
+	}
+	f := c10Callee(call)
+	if f == nil || !c10SamePkg(f, call.Parent()) || len(ch) >= 4 {
+		return false, true, "set is handed to " + an.CalleeName(call.Common()) + " which might add entries"
+	}
+	for i, a := range call.Common().Args {
+		if a != self || i >= len(f.Params) {
+			continue
+		}
+		p := f.Params[i]
+		if o.mark(p, ch.push(call), "p") {
+			continue
+		}
+		var ok, u bool
+		var why string
+		if isMapOfSets {
+			ok, u, why = o.mapUses(p, p.Referrers(), ch.push(call))
+		} else {
+			ok, u, why = o.escapes(p, p.Referrers(), ch.push(call))
+		}
+		if !ok {
+			return false, u, why
+		}
+	}
+	return true, false, ""
+}
+
+// mapOfSets: m is a local map whose values are sets made inside the component.
+func (o *c10Origin) mapOfSets(m ssa.Value, ch c10Chain) (bool, bool, string) {
+	m = an.Unwrap(m)
+	if o.mark(m, ch, "m") {
+		return true, false, ""
+	}
+	switch x := m.(type) {
+	case *ssa.MakeMap:
+		mt, ok := x.Type().Underlying().(*types.Map)
+		if !ok || !c10IsSet(mt.Elem()) {
+			return false, false, "set is taken from a map with another element type"
+		}
+		return o.mapUses(x, x.Referrers(), ch)
+	case *ssa.Parameter:
+		return o.viaParam(x, ch, o.mapOfSets)
+	case *ssa.Phi:
+		for _, e := range x.Edges {
+			if ok, u, why := o.mapOfSets(e, ch); !ok {
+				return false, u, why
+			}
+		}
+		return true, false, ""
+	case *ssa.Call:
+		return o.viaResults(x, 0, ch, o.mapOfSets)
+	case *ssa.Extract:
+		if call, ok := x.Tuple.(*ssa.Call); ok {
+			return o.viaResults(call, x.Index, ch, o.mapOfSets)
+		}
+	case *ssa.UnOp:
+		if al, isAl := x.X.(*ssa.Alloc); isAl && x.Op == token.MUL {
+			vals := c10Stores(al)
+			for _, s := range vals {
+				if ok, u, why := o.mapOfSets(s, ch); !ok {
+					return false, u, why
+				}
+			}
+			if len(vals) > 0 {
+				return true, false, ""
+			}
+		}
+	}
+	if _, _, fromField := an.FieldOf(m); fromField {
+		return false, false, "set is taken from a map held in component state, not built for this request"
+	}
+	return false, true, fmt.Sprintf("origin of the map of sets is not followed (%T)", m)
+}
+
+func (o *c10Origin) mapUses(self ssa.Value, refs *[]ssa.Instruction, ch c10Chain) (bool, bool, string) {
+	if refs == nil {
+		return true, false, ""
+	}
+	for _, ref := range *refs {
+		switch r := ref.(type) {
+		case *ssa.MapUpdate:
+			if r.Map != self {
+				return false, true, "map of sets is stored elsewhere"
+			}
+			if ok, u, why := o.set(r.Value, ch); !ok {
+				return false, u, why
+			}
+		case *ssa.Lookup, *ssa.Range, *ssa.DebugRef, *ssa.Phi, *ssa.Return:
+		case *ssa.Store:
+			if r.Val == self {
+				if _, isAl := r.Addr.(*ssa.Alloc); !isAl {
+					return false, true, "map of sets is stored outside the function"
+				}
+			}
+		case ssa.CallInstruction:
+			if b, isB := r.Common().Value.(*ssa.Builtin); isB && (b.Name() == "len" || b.Name() == "delete") {
+				continue
+			}
+			if ok, u, why := o.passed(r, self, ch, true); !ok {
+				if u {
+					why = strings.Replace(why, "set is handed", "map of sets is handed", 1)
+				}
+				return false, u, why
+			}
 		default:
 			return false, true, fmt.Sprintf("map of sets escapes through %T", ref)
 		}
@@ -590,67 +859,210 @@ func c10LocalSetMap(m ssa.Value, seen map[ssa.Value]bool) (bool, bool, string) {
 	return true, false, ""
 }
 
-// c10SetUpdates returns the MapUpdates into a ParSignedDataSet in fn (not nested literals).
-func c10SetUpdates(fn *ssa.Function) []*ssa.MapUpdate {
-	var out []*ssa.MapUpdate
-	for _, in := range an.Instrs(fn, false) {
-		if mu, ok := in.(*ssa.MapUpdate); ok && c10IsSet(mu.Map.Type()) {
-			out = append(out, mu)
+func c10IsSetUpdate(in ssa.Instruction) bool {
+	mu, ok := in.(*ssa.MapUpdate)
+	return ok && c10IsSet(mu.Map.Type())
+}
+
+// c10Vapi bundles the resolved anchors of the validator API rules.
+type c10VapiCtx struct {
+	c         *rt.Ctx
+	pkg       *ssa.Package
+	subsKey   string
+	verify    *ssa.Function
+	pkIdx     int // argument positions of verifyPartialSig (static call layout)
+	valIdx    int
+	sums      *c10Sums
+	entries   []*ssa.Function
+	inserts   map[*ssa.Function][]c10At
+	subsCalls map[*ssa.Function][]c10At
+}
+
+func c10NewVapi(c *rt.Ctx) *c10VapiCtx {
+	v := &c10VapiCtx{c: c, pkg: c.SSAPkg(c10Vapi), sums: c10NewSums()}
+	v.subsKey = c10Field(c, c10Vapi, "Component", "subs")
+	v.verify = c.Fn(c10VerifyPS)
+	v.pkIdx = c10ParamIdx(v.verify.Signature, c10PubKeyT, true)
+	v.valIdx = c10ParamIdx(v.verify.Signature, c10PSDType, true)
+	if v.pkIdx < 0 || v.valIdx < 0 {
+		c.Bail("verifyPartialSig: unexpected signature")
+	}
+	v.entries = c10Entries(v.pkg)
+	v.inserts = map[*ssa.Function][]c10At{}
+	v.subsCalls = map[*ssa.Function][]c10At{}
+	isSubs := func(in ssa.Instruction) bool {
+		call, ok := in.(ssa.CallInstruction)
+		return ok && an.FieldCall(v.subsKey)(call.Common())
+	}
+	for _, e := range v.entries {
+		if s := c10Down(e, c10IsSetUpdate); len(s) > 0 {
+			v.inserts[e] = s
+		}
+		if s := c10Down(e, isSubs); len(s) > 0 {
+			v.subsCalls[e] = s
 		}
 	}
-	return out
+	return v
+}
+
+// guardedInsert decides one insertion site: on every path to it a verifyPartialSig call on the key
+// and the value being stored has succeeded. The decision is made at the innermost level of the call
+// chain at which a verification is in reach; extracted helpers are followed in both directions.
+func (v *c10VapiCtx) guardedInsert(site c10At) c10Verdict {
+	mu := site.in.(*ssa.MapUpdate)
+	if site.async() {
+		return c10Verdict{unsure: true, why: "insertion runs in a go/defer statement: its order relative to the verification is not decided"}
+	}
+	isVerify := func(in ssa.Instruction) bool {
+		call, ok := in.(ssa.CallInstruction)
+		return ok && !call.Common().IsInvoke() && call.Common().StaticCallee() != nil && an.FuncName(call.Common().StaticCallee()) == c10VerifyPS
+	}
+	top, _, _ := site.level(len(site.ch))
+	if len(c10Down(top, isVerify)) == 0 {
+		return c10Verdict{why: "no call to verifyPartialSig on the way to this insertion"}
+	}
+	states, w, overflow := c10StatesAtSite(func(fn *ssa.Function, ch c10Chain) *c10W {
+		return &c10W{fn: fn, ch: ch, base: c10InsecureBase, tracked: c10Named(c10VerifyPS), sums: v.sums, forall: map[string]bool{c10VerifyPS: true}}
+	}, site)
+	if overflow {
+		return c10Verdict{unsure: true, why: "too many paths on the way to this insertion"}
+	}
+	if len(states) == 0 {
+		return c10Verdict{unsure: true, why: "the insertion is not reachable from " + an.FuncName(top)}
+	}
+	sink := site.in
+	res := c10Verdict{ok: true}
+	for _, st := range states {
+		cx := c10Cx{w: w, ch: site.ch, st: st}
+		keyT, valT := cx.term(mu.Key), c10Unclone(cx.term(mu.Value))
+		good, unsure, why := v.verifiedIn(st, keyT, valT)
+		if good {
+			continue
+		}
+		if len(c10AnyFacts(st, c10VerifyPS)) == 0 && len(site.ch) == 0 && v.verifiedBeforeHandOver(w, st, mu, keyT, valT) {
+			continue
+		}
+		for _, f := range st.facts {
+			if (f.t.op == "forall" || f.t.op == "forall?") && f.t.name == c10VerifyPS {
+				why, unsure = "the values are verified in a loop of their own before this insertion: the correspondence of the elements is not followed", true
+			}
+		}
+		if unsure && !st.taint {
+			res = c10Verdict{unsure: true, why: why, pos: posOf(sink)}
+			continue
+		}
+		for _, f := range c10AnyFacts(st, c10VerifyPS) {
+			if f.a == c10NonNil && len(f.t.args) > v.valIdx && f.t.args[v.valIdx].s == valT.s {
+				why = "verifyPartialSig: the failing status does not stop the insertion"
+			}
+		}
+		if st.taint {
+			res = c10Verdict{unsure: true, why: "verifyPartialSig: its status is tested in a way that is not understood", pos: posOf(sink)}
+			continue
+		}
+		return c10Verdict{why: why, pos: posOf(sink)}
+	}
+	return res
+}
+
+// verifiedIn: the state knows of a successful verifyPartialSig on this key and value.
+func (v *c10VapiCtx) verifiedIn(st *c10State, keyT, valT *c10T) (good, unsure bool, why string) {
+	why = "a path reaches the insertion without a successful verifyPartialSig"
+	for _, g := range c10SuccessFacts(st, c10VerifyPS) {
+		if len(g.args) <= v.pkIdx || len(g.args) <= v.valIdx {
+			continue
+		}
+		switch got := c10Unclone(g.args[v.valIdx]); {
+		case g.args[v.pkIdx].s != keyT.s:
+			why = "the public key that was verified is not the key the value is stored under"
+			unsure = c10DiffUnsure(keyT, g.args[v.pkIdx], c10Vapi+".")
+		case got.s != valT.s:
+			why = "the value stored is neither the verified value nor an identical construction of it"
+			unsure = c10DiffUnsure(valT, got, c10Vapi+".")
+		default:
+			return true, false, ""
+		}
+	}
+	return false, unsure, why
+}
+
+// verifiedBeforeHandOver: the value is put into a local set before it is verified (e.g. a set literal
+// built first); that is harmless as long as on every path from the insertion the set leaves the function
+// (subscriber call, any other call, return, store) only after the verification of this key and value has
+// succeeded.
+func (v *c10VapiCtx) verifiedBeforeHandOver(w *c10W, st *c10State, mu *ssa.MapUpdate, keyT, valT *c10T) bool {
+	mm, ok := an.Resolve(mu.Map).(*ssa.MakeMap)
+	if !ok || mm.Parent() != mu.Parent() {
+		return false
+	}
+	setT := c10Cx{w: w, ch: w.ch, st: st}.term(mm).s
+	fw := &c10W{fn: w.fn, ch: w.ch, base: w.base, tracked: w.tracked, sums: w.sums}
+	okAll, escapes := true, 0
+	fw.visit = func(in ssa.Instruction, s2 *c10State) bool {
+		if !okAll {
+			return true
+		}
+		uses := false
+		for _, op := range an.Operands(in) {
+			if fw.cx(s2).term(op).s == setT {
+				uses = true
+			}
+		}
+		if !uses {
+			return false
+		}
+		switch x := in.(type) {
+		case *ssa.MapUpdate:
+			if x.Map == mu.Map || fw.cx(s2).term(x.Map).s == setT {
+				return false // further insertions are decided on their own
+			}
+		case *ssa.Lookup, *ssa.Range, *ssa.DebugRef, *ssa.Phi:
+			return false
+		case ssa.CallInstruction:
+			if b, isB := x.Common().Value.(*ssa.Builtin); isB && b.Name() == "len" {
+				return false
+			}
+		}
+		escapes++
+		if good, _, _ := v.verifiedIn(s2, keyT, valT); !good {
+			okAll = false
+		}
+		return false
+	}
+	fw.runFrom(mu, st.clone())
+	return okAll && !fw.overflow && escapes > 0
 }
 
 func c10H1(c *rt.Ctx) {
-	c.Fn(c10VerifyPS) // anchor
-	subsKey := c10Field(c, c10Vapi, "Component", "subs")
-	for _, fn := range an.PkgFuncs(c.SSAPkg(c10Vapi)) {
-		name := an.FuncName(fn)
-		guards := an.Calls(fn, an.Static(c10VerifyPS), false)
-		for _, mu := range c10SetUpdates(fn) {
-			good, why := false, "no call to verifyPartialSig in this function"
-			for _, g := range guards {
-				pk, val := c10ArgOfType(g, c10PubKeyT), c10ArgOfType(g, c10PSDType)
-				if pk == nil || val == nil {
-					c.Bail("verifyPartialSig call with unexpected arguments in %s", name)
-				}
-				if !c10Same(pk, mu.Key) {
-					why = "the public key that was verified is not the key the value is stored under"
-					continue
-				}
-				if !c10Same(val, mu.Value) {
-					why = "the value stored is neither the verified value nor an identical construction of it"
-					continue
-				}
-				if ok, w := an.Guarded(g, mu, an.DefaultGuard); !ok {
-					why = "verifyPartialSig: " + w
-					continue
-				}
-				good = true
-				break
-			}
-			if good {
-				if ok, unsure, w := c10LocalSet(mu.Map, map[ssa.Value]bool{}); !ok {
-					if unsure {
-						c.Unsure(name+" ParSignedDataSet[pk]=verified", posOf(mu), w)
-						continue
-					}
-					good, why = false, w
+	v := c10NewVapi(c)
+	for _, e := range v.entries {
+		name := an.FuncName(e)
+		// an unexported function that is only reachable as a value (or not at all) has callers the
+		// static call graph does not show: a failure there is undecided, not a violation
+		exported := e.Parent() == nil && e.Object() != nil && e.Object().Exported()
+		for _, site := range v.inserts[e] {
+			res := v.guardedInsert(site)
+			if res.ok {
+				o := &c10Origin{subsKey: v.subsKey, seen: map[string]bool{}}
+				if ok, unsure, why := o.set(site.in.(*ssa.MapUpdate).Map, site.ch); !ok {
+					res = c10Verdict{unsure: unsure, why: why}
 				}
 			}
-			c.Check(name+" ParSignedDataSet[pk]=verified", posOf(mu), good, why)
+			if !res.ok && !exported {
+				res.unsure = true
+				res.why += " (" + name + " is entered from outside the static call graph)"
+			}
+			res.report(c, name+" ParSignedDataSet[pk]=verified", posOf(site.in))
 		}
-		for _, call := range c10SubsCalls(fn, subsKey) {
+		for _, site := range v.subsCalls[e] {
+			call := site.in.(ssa.CallInstruction)
 			set := c10ArgOfType(call, c10SetType)
 			if set == nil {
-				c.Bail("call through subs without a ParSignedDataSet argument in %s", name)
+				c.Bail("call through subs without a ParSignedDataSet argument in %s", an.FuncName(call.Parent()))
 			}
-			ok, unsure, why := c10LocalSet(set, map[ssa.Value]bool{})
-			if !ok && unsure {
-				c.Unsure(name+" subs(set)", call.Pos(), "set handed to the subscribers: "+why)
-				continue
-			}
-			c.Check(name+" subs(set)", call.Pos(), ok, "set handed to the subscribers: "+why)
+			o := &c10Origin{subsKey: v.subsKey, seen: map[string]bool{}}
+			ok, unsure, why := o.set(set, site.ch)
+			c10Verdict{ok: ok, unsure: unsure, why: "set handed to the subscribers: " + why}.report(c, name+" subs(set)", call.Pos())
 		}
 	}
 }
@@ -666,61 +1078,95 @@ func c10H2(c *rt.Ctx) {
 	if pkP == nil || dataP == nil {
 		c.Bail("verifyPartialSig: unexpected signature")
 	}
-	verifs := c.SomeCalls(fn, an.Static(c10VerifyE2), c10VerifyE2, false)
+	sums := c10NewSums()
+	isVerif := func(in ssa.Instruction) bool {
+		call, ok := in.(ssa.CallInstruction)
+		return ok && an.Static(c10VerifyE2)(call.Common())
+	}
+	verifs := c10Down(fn, isVerif)
+	if len(verifs) == 0 {
+		c.Bail("no call to %s in %s", c10VerifyE2, an.FuncName(fn))
+	}
+	top := &c10W{fn: fn, sums: sums}
+	pkT, dataT := top.cx(c10NewState()).term(pkP), top.cx(c10NewState()).term(dataP)
+	wantData := c10mk("tassert", "core.Eth2SignedData", c10mk("fld", "SignedData", dataT))
 	// (a) operands of the verification
-	for _, v := range verifs {
-		args := v.Common().Args
+	for _, site := range verifs {
+		args := site.in.(ssa.CallInstruction).Common().Args
 		if len(args) != 4 {
 			c.Bail("VerifyEth2SignedData: unexpected arity")
 		}
-		good, why := false, "public share is not the result of getVerifyShareFunc(pubkey)"
-		if ex, ok := an.Unwrap(args[3]).(*ssa.Extract); ok && ex.Index == 0 {
-			if src, ok := ex.Tuple.(*ssa.Call); ok && an.FieldCall(gvsKey)(&src.Call) {
-				switch {
-				case len(src.Call.Args) != 1 || !rootedAt(src.Call.Args[0], pkP):
-					why = "getVerifyShareFunc is not asked for the pubkey parameter"
-				default:
-					if g, w := an.Guarded(src, v, an.DefaultGuard); g {
-						good = true
-					} else {
-						why = "getVerifyShareFunc: " + w
-					}
-				}
+		states, w, _ := c10StatesAtSite(func(f *ssa.Function, ch c10Chain) *c10W {
+			return &c10W{fn: f, ch: ch, base: c10InsecureBase, tracked: c10Named("field:" + gvsKey), sums: sums}
+		}, site)
+		share, data := c10Verdict{ok: true}, true
+		if len(states) == 0 {
+			share = c10Verdict{unsure: true, why: "the verification is not reachable"}
+		}
+		for _, st := range states {
+			cx := c10Cx{w: w, ch: site.ch, st: st}
+			t3 := cx.term(args[3])
+			switch {
+			case !(t3.is("ext", "0") && t3.args[0].op == "dyn" && c10CallName(t3.args[0]) == "field:"+gvsKey):
+				share = c10Verdict{why: "public share is not the result of getVerifyShareFunc(pubkey)"}
+			case len(t3.args[0].args) != 1 || !c10RootedAt(t3.args[0].args[0], pkT):
+				share = c10Verdict{why: "getVerifyShareFunc is not asked for the pubkey parameter"}
+			case cx.lookupFact(c10mk("ext", "1", t3.args[0])) != c10Nil:
+				share = c10Verdict{why: "getVerifyShareFunc: a failing lookup does not stop the verification", unsure: st.taint}
+			}
+			if cx.term(args[2]).s != wantData.s {
+				data = false
 			}
 		}
-		c.Check("verifyPartialSig pubshare=getVerifyShareFunc(pubkey)", v.Pos(), good, why)
-		data := false
-		if ex, ok := an.Unwrap(args[2]).(*ssa.Extract); ok && ex.Index == 0 {
-			if ta, ok := ex.Tuple.(*ssa.TypeAssert); ok {
-				if k, base, ok := an.FieldOf(ta.X); ok && k == c10PSDType+".SignedData" && rootedAt(base, dataP) {
-					data = true
-				}
-			}
-		}
-		c.Check("verifyPartialSig data=parSig.SignedData", v.Pos(), data, "the object verified is not the SignedData of the parSig parameter")
+		share.report(c, "verifyPartialSig pubshare=getVerifyShareFunc(pubkey)", site.in.Pos())
+		c.Check("verifyPartialSig data=parSig.SignedData", site.in.Pos(), data, "the object verified is not the SignedData of the parSig parameter")
 	}
 	// (b) nil is returned only through the verification or under insecureTest
-	prune, nIns := c10InsecurePrune(fn, insecKey)
-	for _, r := range c10ErrReturns(c, fn) {
-		if c10NonNil(r.v, r.at) {
-			continue
+	{
+		w := &c10W{fn: fn, tracked: c10Named(c10VerifyE2), sums: sums}
+		states, rets := c10SuccessStates(w)
+		if w.overflow {
+			c.Bail("too many paths in verifyPartialSig")
 		}
-		via := false
-		for _, v := range verifs {
-			if an.Unwrap(r.v) == v.Value() {
-				via = true
-			} else if g, _ := an.Guarded(v, r.at, an.DefaultGuard); g {
-				via = true
+		type agg struct {
+			via, ins, bad, unsure bool
+		}
+		byRet := map[*ssa.Return]*agg{}
+		var order []*ssa.Return
+		for i, st := range states {
+			a := byRet[rets[i]]
+			if a == nil {
+				a = &agg{}
+				byRet[rets[i]] = a
+				order = append(order, rets[i])
+			}
+			switch {
+			case len(c10SuccessFacts(st, c10VerifyE2)) > 0:
+				a.via = true
+			case c10FieldFact(st, "insecureTest") == c10True:
+				a.ins = true
+			case st.taint:
+				a.unsure = true
+			default:
+				a.bad = true
 			}
 		}
-		if via {
-			c.Good("verifyPartialSig return via VerifyEth2SignedData", posOf(r.at), "")
-			continue
+		for _, r := range order {
+			a := byRet[r]
+			switch {
+			case a.bad:
+				c.Bad("verifyPartialSig return without verification", posOf(r), "verifyPartialSig can return a nil error without VerifyEth2SignedData having succeeded and without insecureTest")
+			case a.unsure:
+				c.Unsure("verifyPartialSig return without verification", posOf(r), "the status of VerifyEth2SignedData is tested in a way that is not understood")
+			default:
+				if a.via {
+					c.Good("verifyPartialSig return via VerifyEth2SignedData", posOf(r), "")
+				}
+				if a.ins {
+					c.Good("verifyPartialSig return without verification", posOf(r), "only under insecureTest")
+				}
+			}
 		}
-		// only reachable through an insecureTest edge?
-		ins := nIns > 0 && !c10Reach(fn.Blocks[0], r.at.Block(), nil, prune)
-		c.Check("verifyPartialSig return without verification", posOf(r.at), ins && c10IsNilConst(r.v),
-			"verifyPartialSig can return a nil error without VerifyEth2SignedData having succeeded and without insecureTest")
 	}
 	// (c) insecureTest is set only in NewComponentInsecure
 	ctor := c.Fn(c10Vapi + ".NewComponentInsecure")
@@ -775,78 +1221,120 @@ func c10H2(c *rt.Ctx) {
 		c.Good("NewComponentInsecure has no non-test caller", ctor.Pos(), fmt.Sprintf("%d packages scanned", len(rels)))
 	}
 	// (e) inner selection proofs
-	for _, f := range an.PkgFuncs(c.SSAPkg(c10Vapi)) {
-		for _, mu := range c10SetUpdates(f) {
-			ct := c10Ctor(mu.Value)
-			if ct == nil {
-				continue
+	v := c10NewVapi(c)
+	for _, e := range v.entries {
+		for _, site := range v.inserts[e] {
+			if res, applies := v.innerProof(site); applies {
+				res.report(c, an.FuncName(e)+" inner selection proof verified", posOf(site.in))
 			}
-			want, ok := c10Inner[an.FuncName(ct.Call.StaticCallee())]
-			if !ok {
-				continue
-			}
-			pr, _ := c10InsecurePrune(f, insecKey)
-			good, why := false, "no call to "+want+" in this function"
-			for _, g := range an.Calls(f, an.Static(want), false) {
-				if ok, w := c10InnerBinding(g, ct, mu); !ok {
-					why = w
-					continue
-				}
-				if ok, w := c10GuardedUnless(g, mu, pr); !ok {
-					why = w
-					continue
-				}
-				good = true
-			}
-			c.Check(an.FuncName(f)+" inner selection proof verified", posOf(mu), good, why)
 		}
 	}
 }
 
-// c10InnerBinding: the inner verification g checks the payload of the very object given to the
-// partial-signature constructor ct, under the full public key of the validator the value is stored for.
-func c10InnerBinding(g ssa.CallInstruction, ct *ssa.Call, mu *ssa.MapUpdate) (bool, string) {
-	if len(ct.Call.Args) == 0 {
-		return false, "constructor without payload"
-	}
-	elem := ct.Call.Args[0]
-	// payload
-	okData := false
-	for _, a := range g.Common().Args {
-		a = an.Unwrap(a)
-		if a == an.Unwrap(elem) {
-			okData = true
-		}
-		if call, ok := a.(*ssa.Call); ok && call.Call.StaticCallee() != nil && strings.HasPrefix(an.FuncName(call.Call.StaticCallee()), "core.New") &&
-			len(call.Call.Args) == 1 && rootedAt(call.Call.Args[0], an.Unwrap(elem)) {
-			okData = true
+// c10FieldFact: what the path knows about (any read of) the named field.
+func c10FieldFact(st *c10State, field string) c10Abs {
+	res := c10U
+	for _, f := range st.facts {
+		if f.t.is("fld", field) {
+			if res != c10U && res != f.a {
+				return c10U
+			}
+			res = f.a
 		}
 	}
-	if !okData {
-		return false, "inner proof is verified on another object than the one stored"
+	return res
+}
+
+// innerProof: the value inserted is built by a constructor whose payload carries an inner selection
+// proof; unless insecureTest, the matching verifier has accepted the proof of that very payload under
+// the full public key of the validator the value is stored for.
+func (v *c10VapiCtx) innerProof(site c10At) (c10Verdict, bool) {
+	mu := site.in.(*ssa.MapUpdate)
+	probe := &c10W{fn: site.in.Parent(), ch: site.ch, sums: v.sums}
+	valT := c10Cx{w: probe, ch: site.ch, st: c10NewState()}.term(mu.Value)
+	ctorOf := func(t *c10T) (*c10T, string) {
+		if t.is("ext", "0") {
+			t = t.args[0]
+		}
+		if t.op != "call" {
+			return nil, ""
+		}
+		want, ok := c10Inner[c10CallName(t)]
+		if !ok {
+			return nil, ""
+		}
+		return t, want
 	}
-	// key: tbls.PublicKey(X) where the map key is core.PubKeyFromBytes(X[:])
-	var pkAlloc ssa.Value
-	for _, a := range g.Common().Args {
-		if an.TypeName(a.Type()) != "tbls.PublicKey" {
+	if ct, _ := ctorOf(valT); ct == nil {
+		return c10Verdict{}, false
+	}
+	if site.async() {
+		return c10Verdict{unsure: true, why: "insertion runs in a go/defer statement"}, true
+	}
+	_, want := ctorOf(valT)
+	top, _, _ := site.level(len(site.ch))
+	isWant := func(in ssa.Instruction) bool {
+		call, ok := in.(ssa.CallInstruction)
+		return ok && an.Static(want)(call.Common())
+	}
+	if len(c10Down(top, isWant)) == 0 {
+		return c10Verdict{why: "no call to " + want + " on the way to this insertion"}, true
+	}
+	states, w, overflow := c10StatesAtSite(func(fn *ssa.Function, ch c10Chain) *c10W {
+		return &c10W{fn: fn, ch: ch, base: c10InsecureBase, tracked: c10Named(want), sums: v.sums}
+	}, site)
+	if overflow {
+		return c10Verdict{unsure: true, why: "too many paths on the way to this insertion"}, true
+	}
+	if len(states) == 0 {
+		return c10Verdict{unsure: true, why: "the insertion is not reachable from " + an.FuncName(top)}, true
+	}
+	res := c10Verdict{ok: true}
+	for _, st := range states {
+		cx := c10Cx{w: w, ch: site.ch, st: st}
+		ct, _ := ctorOf(cx.term(mu.Value))
+		keyT := cx.term(mu.Key)
+		if ct == nil || len(ct.args) == 0 {
+			res = c10Verdict{unsure: true, why: "constructor of the stored value not resolved on every path"}
 			continue
 		}
-		if ld, ok := an.Unwrap(a).(*ssa.UnOp); ok && ld.Op == token.MUL {
-			pkAlloc = ld.X
-		}
-	}
-	if pkAlloc == nil {
-		return false, "inner proof is not verified under a locally resolved validator public key"
-	}
-	key := an.Unwrap(mu.Key)
-	if ex, ok := key.(*ssa.Extract); ok && ex.Index == 0 {
-		if call, ok := ex.Tuple.(*ssa.Call); ok && an.Static("core.PubKeyFromBytes")(&call.Call) && len(call.Call.Args) == 1 {
-			if sl, ok := call.Call.Args[0].(*ssa.Slice); ok && sl.X == pkAlloc {
-				return true, ""
+		payload := ct.args[0]
+		good, unsure := false, false
+		why := "a path that is not conditional on insecureTest reaches the insertion without the inner selection proof having been verified"
+		for _, g := range c10SuccessFacts(st, want) {
+			okData, okKey := false, false
+			for _, a := range g.args {
+				if a.s == payload.s {
+					okData = true
+				}
+				if a.op == "call" && strings.HasPrefix(c10CallName(a), "core.New") && len(a.args) == 1 && c10RootedAt(a.args[0], payload) {
+					okData = true
+				}
+				expect := c10mk("ext", "0", c10mk("call", "core.PubKeyFromBytes", c10mk("slice", "", a)))
+				if expect.s == keyT.s {
+					okKey = true
+				}
+			}
+			switch {
+			case !okData:
+				why = "inner proof is verified on another object than the one stored"
+			case !okKey:
+				why = "inner proof is verified under another validator's public key than the one the value is stored for"
+				unsure = c10LeafUnsure(keyT, c10Vapi+".")
+			default:
+				good = true
 			}
 		}
+		if good {
+			continue
+		}
+		if st.taint || unsure {
+			res = c10Verdict{unsure: true, why: why}
+			continue
+		}
+		return c10Verdict{why: why}, true
 	}
-	return false, "inner proof is verified under another validator's public key than the one the value is stored for"
+	return res, true
 }
 
 // ---------------------------------------------------------------------------------------------
@@ -857,102 +1345,140 @@ func c10H3(c *rt.Ctx) {
 	subsKey := c10Field(c, "core/parsigex", "ParSigEx", "subs")
 	gaterKey := c10Field(c, "core/parsigex", "ParSigEx", "gaterFunc")
 	verifyKey := c10Field(c, "core/parsigex", "ParSigEx", "verifyFunc")
-	sinks := c10SubsCalls(fn, subsKey)
-	if len(sinks) == 0 {
-		c.Bail("no call through ParSigEx.subs in handle")
-	}
-	for _, sink := range sinks {
-		set := c10ArgOfType(sink, c10SetType)
-		duty := c10ArgOfType(sink, "core.Duty")
-		if set == nil || duty == nil {
-			c.Bail("subscriber call with unexpected arguments")
-		}
-		// gater
-		good, why := false, "no call through gaterFunc precedes the subscriber fan-out"
-		for _, g := range an.Calls(fn, an.FieldCall(gaterKey), false) {
-			if len(g.Common().Args) != 1 || !c10Same(g.Common().Args[0], duty) {
-				why = "the duty that is gated is not the duty handed to the subscribers"
-				continue
-			}
-			if ok, w := an.Guarded(g, sink, an.GuardOpt{BoolIdx: 0, BoolWant: true, NoErr: true}); !ok {
-				why = "gaterFunc: " + w
-				continue
-			}
-			good = true
-		}
-		c.Check("handle gaterFunc(duty) before subs", sink.Pos(), good, why)
-		// verify every element
-		good, why = false, "no call through verifyFunc precedes the subscriber fan-out"
-		for _, g := range an.Calls(fn, an.FieldCall(verifyKey), false) {
-			ok, w := c10ForallVerified(fn, g, sink, set, duty)
-			if ok {
-				good = true
-			} else {
-				why = w
-			}
-		}
-		c.Check("handle verifyFunc on every element before subs", sink.Pos(), good, why)
-		// provenance of the set: decoded from the request
-		from := false
-		if ex, ok := an.Unwrap(set).(*ssa.Extract); ok && ex.Index == 0 {
-			if call, ok := ex.Tuple.(*ssa.Call); ok && an.Static("core.ParSignedDataSetFromProto")(&call.Call) {
-				if g, _ := an.Guarded(call, sink, an.DefaultGuard); g {
-					from = true
+	// argument layout of verifyFunc, from the type of the field
+	var vsig *types.Signature
+	if obj := c.Pkg("core/parsigex").Types.Scope().Lookup("ParSigEx"); obj != nil {
+		if st, ok := obj.Type().Underlying().(*types.Struct); ok {
+			for i := 0; i < st.NumFields(); i++ {
+				if st.Field(i).Name() == "verifyFunc" {
+					vsig, _ = st.Field(i).Type().Underlying().(*types.Signature)
 				}
 			}
 		}
-		c.Check("handle set decoded from the request", sink.Pos(), from, "the set handed to subscribers is not the checked result of ParSignedDataSetFromProto")
 	}
-}
-
-func c10ForallVerified(fn *ssa.Function, g, sink ssa.CallInstruction, set, duty ssa.Value) (bool, string) {
-	l := an.InnermostLoop(fn, g.Block())
-	if l == nil {
-		return false, "verifyFunc is not called in a loop over the received set (only some elements are verified)"
+	if vsig == nil {
+		c.Bail("ParSigEx.verifyFunc is not a function field")
 	}
-	coll := l.RangeColl()
-	if coll == nil || an.Unwrap(coll) != an.Unwrap(set) {
-		return false, "the loop that verifies does not range over the set handed to the subscribers"
+	pkIdx, dataIdx, dutyIdx := c10ParamIdx(vsig, c10PubKeyT, false), c10ParamIdx(vsig, c10PSDType, false), c10ParamIdx(vsig, "core.Duty", false)
+	if pkIdx < 0 || dataIdx < 0 || dutyIdx < 0 {
+		c.Bail("ParSigEx.verifyFunc: unexpected signature")
 	}
-	pk, data, d := c10ArgOfType(g, c10PubKeyT), c10ArgOfType(g, c10PSDType), c10ArgOfType(g, "core.Duty")
-	if pk == nil || data == nil || d == nil {
-		return false, "verifyFunc call with unexpected arguments"
+	isSubs := func(in ssa.Instruction) bool {
+		call, ok := in.(ssa.CallInstruction)
+		return ok && an.FieldCall(subsKey)(call.Common())
 	}
-	isElem := func(v ssa.Value, idx int) bool {
-		ex, ok := an.Unwrap(v).(*ssa.Extract)
-		return ok && ex.Index == idx && l.ElemOf(ex)
+	sinks := c10Down(fn, isSubs)
+	if len(sinks) == 0 {
+		c.Bail("no call through ParSigEx.subs in (or below) handle")
 	}
-	if !isElem(pk, 1) || !isElem(data, 2) {
-		return false, "verifyFunc is not applied to the key and value of the element of this iteration"
-	}
-	if !c10Same(d, duty) {
-		return false, "verifyFunc is given another duty than the subscribers"
-	}
-	errs, _ := an.StatusOf(g, -1)
-	if len(errs) != 1 {
-		return false, "error result of verifyFunc is discarded"
-	}
-	why := "error result of verifyFunc is never branched on"
-	for _, cd := range an.CondsOn(fn, errs[0]) {
-		if cd.Other == nil || !an.IsNilConst(cd.Other) || !an.Dominates(g, cd.If) {
-			continue
+	// every other entry point of the package that reaches the subscribers is held to the same standard
+	for _, e := range c10Entries(c.SSAPkg("core/parsigex")) {
+		if e != fn {
+			sinks = append(sinks, c10Down(e, isSubs)...)
 		}
-		var fail *ssa.BasicBlock
-		switch cd.Op {
-		case token.NEQ:
-			fail = cd.Succ(true)
-		case token.EQL:
-			fail = cd.Succ(false)
-		default:
-			continue
-		}
-		ok, w := an.ForallGuard(l, cd.If, fail, sink)
-		if ok {
-			return true, ""
-		}
-		why = w
 	}
-	return false, why
+	sums := c10NewSums()
+	for _, site := range sinks {
+		call := site.in.(ssa.CallInstruction)
+		set := c10ArgOfType(call, c10SetType)
+		duty := c10ArgOfType(call, "core.Duty")
+		if set == nil || duty == nil {
+			c.Bail("subscriber call with unexpected arguments")
+		}
+		top, _, _ := site.level(len(site.ch))
+		label := "handle"
+		if top != fn {
+			label = an.FuncName(top)
+		}
+		gate, forall, decoded := c10Verdict{ok: true}, c10Verdict{ok: true}, c10Verdict{ok: true}
+		if site.async() {
+			u := c10Verdict{unsure: true, why: "subscriber fan-out runs in a go/defer statement: its order relative to the checks is not decided"}
+			gate, forall, decoded = u, u, u
+		} else {
+			states, w, overflow := c10StatesAtSite(func(fn *ssa.Function, ch c10Chain) *c10W {
+				return &c10W{fn: fn, ch: ch, tracked: c10Named("field:"+gaterKey, "field:"+verifyKey, "core.ParSignedDataSetFromProto"),
+					forall: map[string]bool{"field:" + verifyKey: true}, sums: sums}
+			}, site)
+			if overflow {
+				c.Bail("too many paths in %s", an.FuncName(top))
+			}
+			if len(states) == 0 {
+				c.Bail("subscriber fan-out of %s is not reachable", an.FuncName(top))
+			}
+			const pfx = "core/parsigex."
+			fail := func(cur *c10Verdict, st *c10State, why string, unsure bool) {
+				if !cur.ok && !cur.unsure {
+					return
+				}
+				*cur = c10Verdict{why: why, unsure: st.taint || unsure}
+			}
+			for _, st := range states {
+				cx := c10Cx{w: w, ch: site.ch, st: st}
+				setT, dutyT := cx.term(set), cx.term(duty)
+				c10Debug("H3 state at sink: set=%s duty=%s", setT, dutyT)
+				c10DebugState(st)
+				// gater
+				okGate, why, unsure := false, "a path reaches the subscriber fan-out without gaterFunc having accepted the duty", false
+				for _, g := range c10SuccessFacts(st, "field:"+gaterKey) {
+					if len(g.args) == 1 && g.args[0].s == dutyT.s {
+						okGate = true
+					} else {
+						why = "the duty that is gated is not the duty handed to the subscribers"
+						unsure = len(g.args) == 1 && c10DiffUnsure(dutyT, g.args[0], pfx)
+					}
+				}
+				if !okGate {
+					fail(&gate, st, why, unsure)
+				}
+				// every element verified
+				okAll, why, unsure := false, "a path reaches the subscriber fan-out without verifyFunc having accepted every element of the set (verification skipped, its error not stopping the hand-over, or the loop left early)", false
+				var fkeys []string
+				for k := range st.facts {
+					fkeys = append(fkeys, k)
+				}
+				sort.Strings(fkeys)
+				for _, k := range fkeys {
+					f := st.facts[k]
+					t := f.t
+					if t.is("forall?", "field:"+verifyKey) {
+						why, unsure = "verifyFunc is called in a loop whose collection or element is not recognised", true
+						continue
+					}
+					if !t.is("forall", "field:"+verifyKey) || f.a != c10True || len(t.args) != vsig.Params().Len()+1 {
+						continue
+					}
+					switch {
+					case t.args[0].s != setT.s:
+						// a loop over something derived from the set (e.g. a sorted key list) is not followed
+						why = "the loop that verifies does not range over the set handed to the subscribers"
+						unsure = unsure || strings.Contains(t.s, setT.s) || c10DiffUnsure(t.args[0], setT, pfx)
+					case !t.args[1+pkIdx].is("elem", "$k") || !t.args[1+dataIdx].is("elem", "$v"):
+						why = "verifyFunc is not applied to the key and value of the element of this iteration"
+						unsure = unsure || c10LeafUnsure(t.args[1+pkIdx], pfx) || c10LeafUnsure(t.args[1+dataIdx], pfx)
+					case t.args[1+dutyIdx].s != dutyT.s:
+						why = "verifyFunc is given another duty than the subscribers"
+						unsure = unsure || c10DiffUnsure(t.args[1+dutyIdx], dutyT, pfx)
+					default:
+						okAll = true
+					}
+				}
+				if !okAll {
+					fail(&forall, st, why, unsure)
+				}
+				// provenance
+				okDec := false
+				if setT.is("ext", "0") && setT.args[0].op == "call" && c10CallName(setT.args[0]) == "core.ParSignedDataSetFromProto" {
+					okDec = cx.lookupFact(c10mk("ext", "1", setT.args[0])) == c10Nil
+				}
+				if !okDec {
+					fail(&decoded, st, "the set handed to subscribers is not the checked result of ParSignedDataSetFromProto", c10LeafUnsure(setT, pfx))
+				}
+			}
+		}
+		gate.report(c, label+" gaterFunc(duty) before subs", call.Pos())
+		forall.report(c, label+" verifyFunc on every element before subs", call.Pos())
+		decoded.report(c, label+" set decoded from the request", call.Pos())
+	}
 }
 
 // ---------------------------------------------------------------------------------------------
@@ -961,11 +1487,12 @@ func c10ForallVerified(fn *ssa.Function, g, sink ssa.CallInstruction, set, duty 
 func c10H4(c *rt.Ctx) {
 	outer := c.Fn("core/parsigex.NewEth2Verifier")
 	var cl *ssa.Function
-	var mc *ssa.MakeClosure
 	for _, r := range an.Returns(outer) {
 		if len(r.Results) > 0 {
-			if m, ok := r.Results[0].(*ssa.MakeClosure); ok {
-				mc = m
+			if m, ok := an.Resolve(r.Results[0]).(*ssa.MakeClosure); ok {
+				if cl != nil && cl != m.Fn.(*ssa.Function) {
+					c.Bail("NewEth2Verifier returns more than one function literal")
+				}
 				cl = m.Fn.(*ssa.Function)
 			}
 		}
@@ -986,92 +1513,119 @@ func c10H4(c *rt.Ctx) {
 	if tableP == nil || pkP == nil || dataP == nil {
 		c.Bail("NewEth2Verifier: unexpected signature")
 	}
-	isTable := func(v ssa.Value) bool {
-		ld, ok := an.Unwrap(v).(*ssa.UnOp)
-		if !ok || ld.Op != token.MUL {
-			return false
-		}
-		fv, ok := ld.X.(*ssa.FreeVar)
-		if !ok {
-			return false
-		}
-		for i, f := range cl.FreeVars {
-			if f == fv && i < len(mc.Bindings) {
-				al, ok := mc.Bindings[i].(*ssa.Alloc)
-				return ok && rootedAt(al, tableP) && c10StoresTo(al) == 1
-			}
-		}
-		return false
+	sums := c10NewSums()
+	isVerif := func(in ssa.Instruction) bool {
+		call, ok := in.(ssa.CallInstruction)
+		return ok && an.Static(c10VerifyE2)(call.Common())
 	}
-	verifs := c.SomeCalls(cl, an.Static(c10VerifyE2), c10VerifyE2, false)
-	for _, v := range verifs {
-		args := v.Common().Args
+	verifs := c10Down(cl, isVerif)
+	if len(verifs) == 0 {
+		c.Bail("no call to %s in the verifier returned by NewEth2Verifier", c10VerifyE2)
+	}
+	probe := (&c10W{fn: cl, sums: sums}).cx(c10NewState())
+	tableT := (&c10W{fn: outer, sums: sums}).cx(c10NewState()).term(tableP)
+	pkT, dataT := probe.term(pkP), probe.term(dataP)
+	wantData := c10mk("tassert", "core.Eth2SignedData", c10mk("fld", "SignedData", dataT))
+	wantIdx := c10mk("fld", "ShareIdx", dataT)
+	for _, site := range verifs {
+		args := site.in.(ssa.CallInstruction).Common().Args
 		if len(args) != 4 {
 			c.Bail("VerifyEth2SignedData: unexpected arity")
 		}
-		// pubshare = table[pubkey][data.ShareIdx], both lookups comma-ok and checked
-		shareOK, why := false, "public share is not pubSharesByKey[pubkey][data.ShareIdx]"
-		var inner, outerLk *ssa.Lookup
-		if ex, ok := an.Unwrap(args[3]).(*ssa.Extract); ok && ex.Index == 0 {
-			inner, _ = ex.Tuple.(*ssa.Lookup)
+		states, w, overflow := c10StatesAtSite(func(f *ssa.Function, ch c10Chain) *c10W {
+			return &c10W{fn: f, ch: ch, sums: sums}
+		}, site)
+		if overflow || len(states) == 0 {
+			c.Bail("verification in the NewEth2Verifier literal: paths not enumerable")
 		}
-		if inner != nil && inner.CommaOk {
-			switch x := an.Unwrap(inner.X).(type) {
-			case *ssa.Extract:
-				if lk, ok := x.Tuple.(*ssa.Lookup); ok && x.Index == 0 && lk.CommaOk {
-					outerLk = lk
-				}
-			case *ssa.Lookup:
-				// table[pubkey][idx] in one expression: an unknown pubkey yields a nil map, whose
-				// lookup reports !ok, so the share-index check covers it.
-				if !x.CommaOk {
-					outerLk = x
+		share, pkOK, idxOK, data := c10Verdict{ok: true}, true, true, true
+		for _, st := range states {
+			cx := c10Cx{w: w, ch: site.ch, st: st}
+			t3 := cx.term(args[3])
+			var inner, outerLk *c10T
+			if t3.op == "lookup" && len(t3.args) == 2 {
+				inner = t3
+				if t3.args[0].op == "lookup" && len(t3.args[0].args) == 2 {
+					outerLk = t3.args[0]
 				}
 			}
-		}
-		if inner != nil && outerLk != nil {
-			k, base, isF := an.FieldOf(inner.Index)
 			switch {
-			case !isTable(outerLk.X):
-				why = "shares are not looked up in the pubSharesByKey table given to NewEth2Verifier"
-			case an.Unwrap(outerLk.Index) != ssa.Value(pkP):
-				why = "shares are not looked up under the pubkey the signature is claimed for"
-			case !isF || k != c10PSDType+".ShareIdx" || !rootedAt(base, dataP):
-				why = "public share is not selected by the ShareIdx claimed in the partial signature"
-			default:
-				shareOK = true
+			case inner == nil || outerLk == nil:
+				share = c10Verdict{why: "public share is not pubSharesByKey[pubkey][data.ShareIdx]"}
+			case outerLk.args[0].s != tableT.s:
+				share = c10Verdict{why: "shares are not looked up in the pubSharesByKey table given to NewEth2Verifier"}
+			case outerLk.args[1].s != pkT.s:
+				share = c10Verdict{why: "shares are not looked up under the pubkey the signature is claimed for"}
+			case inner.args[1].s != wantIdx.s:
+				share = c10Verdict{why: "public share is not selected by the ShareIdx claimed in the partial signature"}
 			}
-		}
-		c.Check("NewEth2Verifier pubshare=pubSharesByKey[pubkey][data.ShareIdx]", v.Pos(), shareOK, why)
-		c.Check("NewEth2Verifier unknown pubkey rejected", v.Pos(),
-			outerLk != nil && (outerLk.CommaOk && c10CommaOkChecked(outerLk, v) || !outerLk.CommaOk && c10CommaOkChecked(inner, v)),
-			"a missing pubkey entry does not stop the verification (zero share would be used)")
-		c.Check("NewEth2Verifier unknown share index rejected", v.Pos(), inner != nil && c10CommaOkChecked(inner, v),
-			"a missing share index does not stop the verification (zero share would be used)")
-		data := false
-		if ex, ok := an.Unwrap(args[2]).(*ssa.Extract); ok && ex.Index == 0 {
-			if ta, ok := ex.Tuple.(*ssa.TypeAssert); ok {
-				if k, base, ok := an.FieldOf(ta.X); ok && k == c10PSDType+".SignedData" && rootedAt(base, dataP) {
-					data = true
+			innerOK, outerOK := false, false
+			if inner != nil {
+				innerOK = cx.lookupFact(c10mk("lookupok", inner.name, inner.args...)) == c10True
+			}
+			if outerLk != nil {
+				outerOK = cx.lookupFact(c10mk("lookupok", outerLk.name, outerLk.args...)) == c10True
+				// table[pubkey][idx] in one expression: an unknown pubkey yields a nil map, whose lookup
+				// reports !ok, so the share-index check covers it.
+				if !outerOK && innerOK && !c10LookupHasOk(args[3], 1) {
+					outerOK = true
 				}
 			}
-		}
-		c.Check("NewEth2Verifier data=data.SignedData", v.Pos(), data, "the object verified is not the SignedData of the received partial signature")
-	}
-	for _, r := range c10ErrReturns(c, cl) {
-		if c10NonNil(r.v, r.at) {
-			continue
-		}
-		via := false
-		for _, v := range verifs {
-			if an.Unwrap(r.v) == v.Value() {
-				via = true
-			} else if g, _ := an.Guarded(v, r.at, an.DefaultGuard); g {
-				via = true
+			pkOK = pkOK && outerOK
+			idxOK = idxOK && innerOK
+			if cx.term(args[2]).s != wantData.s {
+				data = false
 			}
 		}
-		c.Check("NewEth2Verifier nil only via VerifyEth2SignedData", posOf(r.at), via, "the verifier can return nil without VerifyEth2SignedData having succeeded")
+		share.report(c, "NewEth2Verifier pubshare=pubSharesByKey[pubkey][data.ShareIdx]", site.in.Pos())
+		c.Check("NewEth2Verifier unknown pubkey rejected", site.in.Pos(), pkOK, "a missing pubkey entry does not stop the verification (zero share would be used)")
+		c.Check("NewEth2Verifier unknown share index rejected", site.in.Pos(), idxOK, "a missing share index does not stop the verification (zero share would be used)")
+		c.Check("NewEth2Verifier data=data.SignedData", site.in.Pos(), data, "the object verified is not the SignedData of the received partial signature")
 	}
+	w := &c10W{fn: cl, tracked: c10Named(c10VerifyE2), sums: sums}
+	states, rets := c10SuccessStates(w)
+	if w.overflow {
+		c.Bail("too many paths in the NewEth2Verifier literal")
+	}
+	bad := map[*ssa.Return]c10Verdict{}
+	var order []*ssa.Return
+	for i, st := range states {
+		if _, seen := bad[rets[i]]; !seen {
+			order = append(order, rets[i])
+			bad[rets[i]] = c10Verdict{ok: true}
+		}
+		if len(c10SuccessFacts(st, c10VerifyE2)) == 0 {
+			if cur := bad[rets[i]]; cur.ok || cur.unsure {
+				bad[rets[i]] = c10Verdict{unsure: st.taint, why: "the verifier can return nil without VerifyEth2SignedData having succeeded"}
+			}
+		}
+	}
+	for _, r := range order {
+		bad[r].report(c, "NewEth2Verifier nil only via VerifyEth2SignedData", posOf(r))
+	}
+}
+
+// c10LookupHasOk: the depth-th map lookup under value v (0 = the lookup producing v) is a comma-ok lookup.
+func c10LookupHasOk(v ssa.Value, depth int) bool {
+	for i := 0; i < 8; i++ {
+		v = an.Resolve(v)
+		var lk *ssa.Lookup
+		switch x := v.(type) {
+		case *ssa.Extract:
+			lk, _ = x.Tuple.(*ssa.Lookup)
+		case *ssa.Lookup:
+			lk = x
+		}
+		if lk == nil {
+			return true
+		}
+		if depth == 0 {
+			return lk.CommaOk
+		}
+		depth--
+		v = lk.X
+	}
+	return true
 }
 
 func c10StoresTo(a *ssa.Alloc) int {
@@ -1087,167 +1641,381 @@ func c10StoresTo(a *ssa.Alloc) int {
 // ---------------------------------------------------------------------------------------------
 // H5
 
+// c10HashPair: a roots-equal fact eq(ext0(HashTreeRoot(a)), ext0(HashTreeRoot(b))) known true.
+type c10HashPair struct {
+	a, b         *c10T // receivers
+	callA, callB *c10T // the invoke terms
+}
+
+func c10HashPairs(st *c10State) []c10HashPair {
+	var keys []string
+	for k := range st.facts {
+		keys = append(keys, k)
+	}
+	sort.Strings(keys)
+	var out []c10HashPair
+	for _, k := range keys {
+		f := st.facts[k]
+		if f.a != c10True || !f.t.is("eq") || len(f.t.args) != 2 {
+			continue
+		}
+		root := func(t *c10T) (*c10T, *c10T) {
+			if t.is("ext", "0") && t.args[0].op == "invoke" && c10CallName(t.args[0]) == "HashTreeRoot" && len(t.args[0].args) == 1 {
+				return t.args[0].args[0], t.args[0]
+			}
+			return nil, nil
+		}
+		ra, ca := root(f.t.args[0])
+		rb, cb := root(f.t.args[1])
+		if ra != nil && rb != nil {
+			out = append(out, c10HashPair{ra, rb, ca, cb})
+		}
+	}
+	return out
+}
+
+func (p c10HashPair) errorsChecked(st *c10State) bool {
+	for _, call := range []*c10T{p.callA, p.callB} {
+		if f, ok := st.facts[c10mk("ext", "1", call).s]; !ok || f.a != c10Nil {
+			return false
+		}
+	}
+	return true
+}
+
 func c10H5(c *rt.Ctx) {
 	match := c.Fn(c10Vapi + ".propDataMatchesDuty")
 	subsKey := c10Field(c, c10Vapi, "Component", "subs")
 	awaitKey := c10Field(c, c10Vapi, "Component", "awaitProposalFunc")
+	matchName := c10Vapi + ".propDataMatchesDuty"
+	sums := c10NewSums()
+	isSubs := func(in ssa.Instruction) bool {
+		call, ok := in.(ssa.CallInstruction)
+		return ok && an.FieldCall(subsKey)(call.Common())
+	}
+	isMatch := func(in ssa.Instruction) bool {
+		call, ok := in.(ssa.CallInstruction)
+		return ok && an.Orig(call.Common().StaticCallee()) == match
+	}
+	var optsParam, propParam *ssa.Parameter
+	optsIdx, propIdx := -1, -1
+	for _, p := range match.Params {
+		switch n := an.TypeName(p.Type()); {
+		case strings.HasSuffix(n, ".SubmitProposalOpts"):
+			optsParam = p
+			optsIdx = c10IndexOfParam(match, p)
+		case strings.HasSuffix(n, ".VersionedProposal"):
+			propParam = p
+			propIdx = c10IndexOfParam(match, p)
+		}
+	}
+	if optsParam == nil || propParam == nil {
+		c.Bail("propDataMatchesDuty: unexpected signature")
+	}
 	// (a) the two block submission handlers
 	for _, hn := range []string{"SubmitProposal", "SubmitBlindedProposal"} {
 		fn := c.Fn(c10Comp + "." + hn)
-		sinks := c10SubsCalls(fn, subsKey)
+		sinks := c10Down(fn, isSubs)
 		if len(sinks) == 0 {
-			c.Bail("no call through subs in %s", hn)
+			c.Bail("no call through subs in (or below) %s", hn)
 		}
-		optsP := fn.Params[len(fn.Params)-1]
-		for _, sink := range sinks {
-			good, why := false, "no call to propDataMatchesDuty precedes the subscriber fan-out"
-			for _, g := range an.Calls(fn, an.Static(c10Vapi+".propDataMatchesDuty"), false) {
-				args := g.Common().Args
-				if len(args) != 2 {
-					c.Bail("propDataMatchesDuty: unexpected arity")
+		var optsP *ssa.Parameter
+		for _, p := range fn.Params {
+			if strings.HasSuffix(an.TypeName(p.Type()), "ProposalOpts") {
+				optsP = p
+			}
+		}
+		if optsP == nil {
+			c.Bail("%s: submission parameter not found", hn)
+		}
+		guards := map[string]c10At{} // call term name -> site
+		for _, g := range c10Down(fn, isMatch) {
+			w := &c10W{fn: g.in.Parent(), ch: g.ch, sums: sums}
+			t := c10Cx{w: w, ch: g.ch, st: c10NewState()}.term(g.in.(ssa.Value))
+			guards[t.name] = g
+		}
+		optsT := (&c10W{fn: fn, sums: sums}).cx(c10NewState()).term(optsP)
+		for _, site := range sinks {
+			res := c10Verdict{ok: true}
+			if site.async() {
+				res = c10Verdict{unsure: true, why: "subscriber fan-out runs in a go/defer statement"}
+			} else {
+				states, w, overflow := c10StatesAtSite(func(f *ssa.Function, ch c10Chain) *c10W {
+					return &c10W{fn: f, ch: ch, tracked: c10Named(matchName, "field:"+awaitKey), sums: sums}
+				}, site)
+				if overflow || len(states) == 0 {
+					c.Bail("%s: paths to the subscriber fan-out not enumerable", hn)
 				}
-				if ok, w := an.Guarded(g, sink, an.DefaultGuard); !ok {
-					why = "propDataMatchesDuty: " + w
-					continue
-				}
-				// agreed proposal: checked result of awaitProposalFunc
-				agreed := false
-				if ex, ok := an.Unwrap(args[1]).(*ssa.Extract); ok && ex.Index == 0 {
-					if call, ok := ex.Tuple.(*ssa.Call); ok && an.FieldCall(awaitKey)(&call.Call) {
-						if gg, _ := an.Guarded(call, g, an.DefaultGuard); gg {
-							agreed = true
+				for _, st := range states {
+					cx := c10Cx{w: w, ch: site.ch, st: st}
+					good, why := false, "a path reaches the subscriber fan-out without propDataMatchesDuty having succeeded"
+					for _, g := range c10SuccessFacts(st, matchName) {
+						if len(g.args) != len(match.Params) {
+							c.Bail("propDataMatchesDuty: unexpected arity")
 						}
+						agreed := g.args[propIdx]
+						if !(agreed.is("ext", "0") && agreed.args[0].op == "dyn" && c10CallName(agreed.args[0]) == "field:"+awaitKey &&
+							cx.lookupFact(c10mk("ext", "1", agreed.args[0])) == c10Nil) {
+							why = "the submission is not compared with the checked result of awaitProposalFunc"
+							continue
+						}
+						gs, ok := guards[g.name]
+						if !ok {
+							why = "propDataMatchesDuty call not resolved"
+							continue
+						}
+						gw := &c10W{fn: gs.in.Parent(), ch: gs.ch, sums: sums}
+						if ok, w2 := c10FromOpts(c10Cx{w: gw, ch: gs.ch, st: c10NewState()}, gs.in.(ssa.CallInstruction).Common().Args[optsIdx], optsT, 0); !ok {
+							why = w2
+							continue
+						}
+						good = true
+					}
+					if !good {
+						for _, f := range c10AnyFacts(st, matchName) {
+							if f.a == c10NonNil {
+								why = "propDataMatchesDuty: a mismatch does not stop the hand-over to the subscribers"
+							}
+						}
+						if st.taint {
+							if res.ok {
+								res = c10Verdict{unsure: true, why: "propDataMatchesDuty: its status is tested in a way that is not understood"}
+							}
+							continue
+						}
+						res = c10Verdict{why: why}
+						break
 					}
 				}
-				if !agreed {
-					why = "the submission is not compared with the checked result of awaitProposalFunc"
-					continue
-				}
-				if ok, w := c10FromOpts(args[0], optsP); !ok {
-					why = w
-					continue
-				}
-				good = true
 			}
-			c.Check(hn+" propDataMatchesDuty before subs", sink.Pos(), good, why)
+			res.report(c, hn+" propDataMatchesDuty before subs", site.in.Pos())
 		}
 		// what is stored is built from the same submission
-		for _, mu := range c10SetUpdates(fn) {
-			ct := c10Ctor(mu.Value)
-			ok := ct != nil && len(ct.Call.Args) > 0 && rootedAt(ct.Call.Args[0], optsP)
+		for _, site := range c10Down(fn, c10IsSetUpdate) {
+			mu := site.in.(*ssa.MapUpdate)
+			w := &c10W{fn: site.in.Parent(), ch: site.ch, sums: sums}
+			t := c10Cx{w: w, ch: site.ch, st: c10NewState()}.term(mu.Value)
+			if t.is("ext", "0") {
+				t = t.args[0]
+			}
+			ok := t.op == "call" && len(t.args) > 0 && c10RootedAt(t.args[0], optsT)
 			c.Check(hn+" stored value built from the compared submission", posOf(mu), ok, "the partial signature stored is not built from the opts that were compared with the agreed proposal")
 		}
 	}
-	// (b) propDataMatchesDuty returns nil only through checkHashes
-	if len(match.Params) != 2 {
-		c.Bail("propDataMatchesDuty: unexpected signature")
+	// (b) propDataMatchesDuty returns nil only after the hash tree roots of the agreed proposal's payload and of the
+	// submitted payload of the same fork were found equal
+	w := &c10W{fn: match, sums: sums}
+	states, rets := c10SuccessStates(w)
+	if w.overflow {
+		c.Bail("too many paths in propDataMatchesDuty")
 	}
-	optsP, propP := match.Params[0], match.Params[1]
-	var check *ssa.Function
-	n := 0
-	for _, r := range c10ErrReturns(c, match) {
-		if c10NonNil(r.v, r.at) {
+	if len(states) == 0 {
+		c.Bail("propDataMatchesDuty never returns nil")
+	}
+	probe := w.cx(c10NewState())
+	optsT, propT := probe.term(optsParam), probe.term(propParam)
+	consts := c10VersionConsts(c.SSAPkg(c10Vapi))
+	side := func(t *c10T) (string, []string) {
+		root, fields := c10Path(t)
+		switch root.s {
+		case propT.s:
+			return "prop", fields
+		case optsT.s:
+			return "opts", fields
+		}
+		return "", nil
+	}
+	type payload struct {
+		good   bool
+		unsure bool
+		why    string
+		pos    token.Pos
+		order  int
+	}
+	payloads := map[string]*payload{}
+	versions := map[string]bool{}
+	header := map[string]bool{"Blinded": true, "Version": true}
+	rootsOK, rootsWhy := true, ""
+	var rootsPos token.Pos
+	for i, st := range states {
+		r := rets[i]
+		// header equalities known on this path
+		for f := range header {
+			found := false
+			for _, fact := range st.facts {
+				if fact.a != c10True || !fact.t.is("eq") || len(fact.t.args) != 2 {
+					continue
+				}
+				sa, fa := side(fact.t.args[0])
+				sb, fb := side(fact.t.args[1])
+				if sa == "" || sb == "" || sa == sb || len(fa) == 0 || len(fb) == 0 || fa[len(fa)-1] != f || fb[len(fb)-1] != f {
+					continue
+				}
+				found = true
+			}
+			if !found {
+				header[f] = false
+			}
+		}
+		// version and blinded flag of this path
+		ver, blinded := "", c10U
+		for _, fact := range st.facts {
+			t := fact.t
+			if t.is("eq") && fact.a == c10True && len(t.args) == 2 {
+				for j := 0; j < 2; j++ {
+					if name, ok := consts[t.args[j].s]; ok {
+						if s, f := side(t.args[1-j]); s != "" && len(f) > 0 && f[len(f)-1] == "Version" {
+							ver = name
+						}
+					}
+				}
+			}
+			if s, f := side(t); s != "" && len(f) > 0 && f[len(f)-1] == "Blinded" && (fact.a == c10True || fact.a == c10False) {
+				if blinded != c10U && blinded != fact.a {
+					blinded = c10U
+					continue
+				}
+				blinded = fact.a
+			}
+		}
+		// only comparisons between payloads of the two arguments count; comparisons of values whose
+		// provenance is not followed make the path undecided instead of a violation
+		var pairs []c10HashPair
+		unfollowed := false
+		for _, p := range c10HashPairs(st) {
+			sa, _ := side(p.a)
+			sb, _ := side(p.b)
+			switch {
+			case sa != "" && sb != "":
+				pairs = append(pairs, p)
+			case c10LeafUnsure(p.a, c10Vapi+".") || c10LeafUnsure(p.b, c10Vapi+".") || p.a.op == "phi" || p.b.op == "phi":
+				unfollowed = true
+			}
+		}
+		if len(pairs) == 0 {
+			if unfollowed {
+				c.Unsure("propDataMatchesDuty return without hash comparison", posOf(r), "hash tree roots are compared, but of values whose origin is not followed (version "+ver+")")
+				continue
+			}
+			rootsOK, rootsWhy, rootsPos = false, "nil is returned without the hash tree roots having been found equal", posOf(r)
+			c.Bad("propDataMatchesDuty return without hash comparison", posOf(r), "propDataMatchesDuty can return nil without comparing hash tree roots (version "+ver+")")
 			continue
 		}
-		n++
-		call, ok := an.Unwrap(r.v).(*ssa.Call)
-		var callee *ssa.Function
-		if ok {
-			callee = call.Call.StaticCallee()
-			if mc, isMC := call.Call.Value.(*ssa.MakeClosure); isMC {
-				callee, _ = mc.Fn.(*ssa.Function)
+		for _, p := range pairs {
+			sa, fa := side(p.a)
+			sb, fb := side(p.b)
+			if sa == "opts" {
+				sa, fa, sb, fb = sb, fb, sa, fa
+			}
+			label := strings.Join(fa, ".")
+			if label == "" {
+				label = "?"
+			}
+			pl := payloads[label]
+			if pl == nil {
+				pl = &payload{good: true, pos: posOf(r), order: len(payloads)}
+				payloads[label] = pl
+			}
+			fail := func(why string) {
+				if pl.good {
+					pl.good, pl.why = false, why
+				}
+			}
+			switch {
+			case !p.errorsChecked(st):
+				rootsOK, rootsWhy, rootsPos = false, "HashTreeRoot error ignored", posOf(r)
+				fail("HashTreeRoot error ignored")
+			case sa != "prop" || sb != "opts":
+				fail("comparison does not take one side from the agreed proposal and the other from the submission")
+			case c10ForkOf(fa) == "" || c10ForkOf(fa) != c10ForkOf(fb):
+				fail(fmt.Sprintf("payloads of different forks are compared (%s vs %s)", strings.Join(fa, "."), strings.Join(fb, ".")))
+			case ver == "":
+				if pl.good && !pl.unsure {
+					pl.unsure, pl.why = true, fmt.Sprintf("payload %s is compared on a path on which the version of the proposal is not known (dispatch not followed)", c10ForkOf(fa))
+				}
+			case !strings.EqualFold(strings.TrimPrefix(ver, "DataVersion"), strings.TrimSuffix(c10ForkOf(fa), "Blinded")):
+				fail(fmt.Sprintf("payload %s is compared in the case of version %q", c10ForkOf(fa), ver))
+			default:
+				isBl := strings.HasSuffix(c10ForkOf(fa), "Blinded")
+				if isBl && blinded != c10True || !isBl && blinded == c10True {
+					fail(fmt.Sprintf("payload %s is compared on the wrong side of the prop.Blinded test", c10ForkOf(fa)))
+				} else {
+					versions[ver] = true
+				}
 			}
 		}
-		if callee == nil || callee.Parent() != match || len(call.Call.Args) != 2 {
-			c.Bad("propDataMatchesDuty return without hash comparison", posOf(r.at), "propDataMatchesDuty can return nil without comparing hash tree roots")
-			continue
-		}
-		if check != nil && check != callee {
-			c.Bail("propDataMatchesDuty uses more than one comparison closure")
-		}
-		check = callee
-		k1, b1, ok1 := c10FieldPath(call.Call.Args[0], propP)
-		k2, b2, ok2 := c10FieldPath(call.Call.Args[1], optsP)
-		good := ok1 && ok2 && b1 && b2
-		why := "comparison does not take one side from the agreed proposal and the other from the submission"
-		if good {
-			// same fork payload on both sides: prop.<V>[Blinded] vs opts.Proposal.<V>[Blinded]
-			if c10ForkOf(k1) == "" || c10ForkOf(k1) != c10ForkOf(k2) {
-				good, why = false, fmt.Sprintf("payloads of different forks are compared (%s vs %s)", strings.Join(k1, "."), strings.Join(k2, "."))
-			}
-		}
-		// the fork compared is the fork of the case it is in
-		if good {
-			ver := c10CaseConst(match, r.at.Block(), propP)
-			if ver == "" || !strings.EqualFold(strings.TrimPrefix(ver, "DataVersion"), strings.TrimSuffix(c10ForkOf(k1), "Blinded")) {
-				good, why = false, fmt.Sprintf("payload %s is compared in the case of version %q", c10ForkOf(k1), ver)
-			}
-		}
-		// blinded payloads are compared exactly when the agreed proposal is blinded
-		if good {
-			edge := c10BlindedEdge(match, r.at.Block(), propP)
-			isBl := strings.HasSuffix(c10ForkOf(k1), "Blinded")
-			if isBl && edge != 1 || !isBl && edge == 1 {
-				good, why = false, fmt.Sprintf("payload %s is compared on the wrong side of the prop.Blinded test", c10ForkOf(k1))
-			}
-		}
-		c.Check("propDataMatchesDuty "+strings.Join(k1, ".")+" compared", posOf(r.at), good, why)
 	}
-	if check == nil {
-		c.Bail("propDataMatchesDuty: comparison closure not found")
+	var labels []string
+	for l := range payloads {
+		labels = append(labels, l)
 	}
-	// checkHashes: nil only on the equal edge of the two roots
-	d1, d2 := check.Params[0], check.Params[1]
-	for _, r := range c10ErrReturns(c, check) {
-		if c10NonNil(r.v, r.at) {
-			continue
+	sort.Slice(labels, func(i, j int) bool { return payloads[labels[i]].order < payloads[labels[j]].order })
+	for _, l := range labels {
+		pl := payloads[l]
+		c10Verdict{ok: pl.good && !pl.unsure, unsure: pl.good && pl.unsure, why: pl.why}.report(c, "propDataMatchesDuty "+l+" compared", pl.pos)
+	}
+	// the comparison helper(s): nil only for equal roots
+	helpers := c10RootCompareHelpers(match)
+	if len(helpers) == 0 {
+		c.Check("checkHashes nil only for equal roots", func() token.Pos {
+			if rootsPos.IsValid() {
+				return rootsPos
+			}
+			return match.Pos()
+		}(), rootsOK, rootsWhy)
+	}
+	for _, h := range helpers {
+		hw := &c10W{fn: h, sums: sums}
+		hst, hrets := c10SuccessStates(hw)
+		// a helper answering (equal bool, err error): success means "true, nil"
+		if res := h.Signature.Results(); res.Len() == 2 {
+			if b, ok := res.At(0).Type().Underlying().(*types.Basic); ok && b.Kind() == types.Bool {
+				var st2 []*c10State
+				var rets2 []*ssa.Return
+				for i, st := range hst {
+					rv := returnValues(hrets[i])
+					if hw.cx(st).eval(rv[0]) == c10False {
+						continue
+					}
+					hw.cx(st).assume(rv[0], true)
+					st2, rets2 = append(st2, st), append(rets2, hrets[i])
+				}
+				hst, hrets = st2, rets2
+			}
 		}
-		good, why := false, "nil is returned without the hash tree roots having been compared"
-		for _, b := range check.Blocks {
-			iff, ok := b.Instrs[len(b.Instrs)-1].(*ssa.If)
-			if !ok {
-				continue
+		good, why := len(hst) > 0 && !hw.overflow, "comparison helper never returns nil"
+		pos := h.Pos()
+		for i, st := range hst {
+			okPath := false
+			for _, p := range c10HashPairs(st) {
+				if p.a.op == "param" && p.b.op == "param" && p.a.s != p.b.s {
+					if p.errorsChecked(st) {
+						okPath = true
+					} else {
+						why = "HashTreeRoot error ignored"
+					}
+				} else {
+					why = "the comparison is not between the roots of both arguments"
+				}
 			}
-			bin, ok := iff.Cond.(*ssa.BinOp)
-			if !ok || (bin.Op != token.NEQ && bin.Op != token.EQL) {
-				continue
+			if !okPath {
+				if good {
+					pos = posOf(hrets[i])
+					if why == "comparison helper never returns nil" {
+						why = "nil is reachable when the roots differ (or without comparing them)"
+					}
+				}
+				good = false
 			}
-			rx, ex := c10RootOf(bin.X)
-			ry, ey := c10RootOf(bin.Y)
-			if rx == nil || ry == nil {
-				continue
-			}
-			if !(rx == ssa.Value(d1) && ry == ssa.Value(d2) || rx == ssa.Value(d2) && ry == ssa.Value(d1)) {
-				why = "the comparison is not between the roots of both arguments"
-				continue
-			}
-			eq := b.Succs[0]
-			ne := b.Succs[1]
-			if bin.Op == token.NEQ {
-				eq, ne = ne, eq
-			}
-			if !(eq.Dominates(r.at.Block()) && len(eq.Preds) == 1) || c10Reach(ne, r.at.Block(), nil, nil) {
-				why = "nil is reachable when the roots differ"
-				continue
-			}
-			// both HashTreeRoot calls are error-checked
-			if ok1, _ := an.Guarded(ex, iff, an.DefaultGuard); !ok1 {
-				why = "HashTreeRoot error ignored"
-				continue
-			}
-			if ok2, _ := an.Guarded(ey, iff, an.DefaultGuard); !ok2 {
-				why = "HashTreeRoot error ignored"
-				continue
-			}
-			good = true
 		}
-		c.Check("checkHashes nil only for equal roots", posOf(r.at), good, why)
+		c.Check("checkHashes nil only for equal roots", pos, good, why)
 	}
 	// (c) version coverage: same constants as VersionedSignedProposal.MessageRoot
-	got := c10SwitchConsts(match, func(v ssa.Value) bool {
-		k, base, ok := an.FieldOf(v)
-		return ok && strings.HasSuffix(k, "VersionedProposal.Version") && rootedAt(base, propP)
-	})
+	var got []string
+	for v := range versions {
+		got = append(got, v)
+	}
+	sort.Strings(got)
 	ref := c.Fn("core.VersionedSignedProposal.MessageRoot")
 	want := c10SwitchConsts(ref, func(v ssa.Value) bool {
 		k, _, ok := an.FieldOf(v)
@@ -1258,49 +2026,95 @@ func c10H5(c *rt.Ctx) {
 	}
 	c.Check("propDataMatchesDuty version switch covers all proposal versions", match.Pos(), fmt.Sprint(got) == fmt.Sprint(want),
 		fmt.Sprintf("versions handled %v, versions of core.VersionedSignedProposal.MessageRoot %v", got, want))
-	// the three header fields
 	for _, f := range []string{"Blinded", "Version"} {
-		ok := false
-		for _, b := range match.Blocks {
-			iff, isIf := b.Instrs[len(b.Instrs)-1].(*ssa.If)
-			if !isIf {
+		c.Check("propDataMatchesDuty "+f+" equal", match.Pos(), header[f], "submission and agreed proposal are not required to have the same "+f)
+	}
+}
+
+func c10IndexOfParam(fn *ssa.Function, p *ssa.Parameter) int {
+	for i, q := range fn.Params {
+		if q == p {
+			return i
+		}
+	}
+	return -1
+}
+
+// c10RootCompareHelpers lists the functions below fn (closures, in-package helpers) that take two
+// hashable values and invoke HashTreeRoot on their parameters.
+func c10RootCompareHelpers(fn *ssa.Function) []*ssa.Function {
+	seen := map[*ssa.Function]bool{}
+	var out []*ssa.Function
+	isHTR := func(in ssa.Instruction) bool {
+		call, ok := in.(*ssa.Call)
+		if !ok || !call.Call.IsInvoke() || call.Call.Method.Name() != "HashTreeRoot" {
+			return false
+		}
+		_, isParam := an.Unwrap(call.Call.Value).(*ssa.Parameter)
+		return isParam
+	}
+	for _, s := range c10Down(fn, isHTR) {
+		h := s.in.Parent()
+		if h == fn || seen[h] {
+			continue
+		}
+		seen[h] = true
+		out = append(out, h)
+	}
+	return out
+}
+
+// c10VersionConsts maps the term of every DataVersion constant used in the package to its declared name.
+func c10VersionConsts(pkg *ssa.Package) map[string]string {
+	out := map[string]string{}
+	probe := (&c10W{}).cx(c10NewState())
+	for _, f := range an.PkgFuncs(pkg) {
+		for _, in := range an.Instrs(f, false) {
+			bin, ok := in.(*ssa.BinOp)
+			if !ok {
 				continue
 			}
-			bin, isBin := iff.Cond.(*ssa.BinOp)
-			if !isBin || bin.Op != token.NEQ {
-				continue
-			}
-			kx, sx, okx := c10FieldPath(bin.X, optsP)
-			ky, sy, oky := c10FieldPath(bin.Y, propP)
-			if !okx || !oky || !sx || !sy || kx[len(kx)-1] != f || ky[len(ky)-1] != f {
-				continue
-			}
-			// unequal edge returns a non-nil error
-			if c10AllReturnsNonNil(c, match, b.Succs[0], b.Succs[1]) {
-				ok = true
+			for _, op := range []ssa.Value{bin.X, bin.Y} {
+				if k, ok := op.(*ssa.Const); ok && k.Value != nil && strings.HasSuffix(an.TypeName(k.Type()), "DataVersion") {
+					out[probe.term(k).s] = c10ConstName(k)
+				}
 			}
 		}
-		c.Check("propDataMatchesDuty "+f+" equal", match.Pos(), ok, "submission and agreed proposal are not required to have the same "+f)
 	}
+	return out
 }
 
-// c10AllReturnsNonNil: block then does not fall through to els and returns a non-nil error.
-func c10AllReturnsNonNil(c *rt.Ctx, fn *ssa.Function, then, els *ssa.BasicBlock) bool {
-	if len(then.Succs) != 0 {
-		return false
+// c10FromOpts: v is the handler's opts parameter (or a field path of it), or a literal whose every member
+// is a constant, a nested literal of the same kind, or read from the opts parameter; helpers building
+// the literal are followed.
+func c10FromOpts(cx c10Cx, v ssa.Value, opts *c10T, d int) (bool, string) {
+	if d > 6 {
+		return false, "the object compared with the agreed proposal is nested too deeply"
 	}
-	r, ok := then.Instrs[len(then.Instrs)-1].(*ssa.Return)
-	if !ok {
-		return false
+	v = an.Resolve(v)
+	if t := cx.term(v); c10RootedAt(t, opts) {
+		return true, ""
 	}
-	return c10NonNil(r.Results[len(r.Results)-1], r)
-}
-
-// c10FromOpts: v is the handler's opts parameter, or a literal whose every member is a constant, a
-// nested literal of the same kind, or read from the opts parameter.
-func c10FromOpts(v ssa.Value, opts ssa.Value) (bool, string) {
-	v = an.Unwrap(v)
-	if v == opts {
+	switch x := v.(type) {
+	case *ssa.Call:
+		if r, rcx, ok := cx.inline(x, 0); ok {
+			return c10FromOpts(rcx, r, opts, d+1)
+		}
+	case *ssa.Parameter:
+		fn := x.Parent()
+		if len(cx.ch) > 0 && c10Callee(cx.ch[0]) == an.Orig(fn) {
+			if i := c10IndexOfParam(fn, x); i >= 0 && i < len(cx.ch[0].Common().Args) {
+				up := cx
+				up.ch = cx.ch[1:]
+				return c10FromOpts(up, cx.ch[0].Common().Args[i], opts, d+1)
+			}
+		}
+	case *ssa.Phi:
+		for _, e := range x.Edges {
+			if ok, w := c10FromOpts(cx, e, opts, d+1); !ok {
+				return false, w
+			}
+		}
 		return true, ""
 	}
 	al, ok := v.(*ssa.Alloc)
@@ -1309,73 +2123,45 @@ func c10FromOpts(v ssa.Value, opts ssa.Value) (bool, string) {
 	}
 	n := 0
 	for _, ref := range *al.Referrers() {
-		fa, ok := ref.(*ssa.FieldAddr)
-		if !ok {
-			continue
-		}
-		for _, r2 := range *fa.Referrers() {
-			st, ok := r2.(*ssa.Store)
-			if !ok || st.Addr != ssa.Value(fa) {
-				continue
-			}
-			n++
-			val := an.Unwrap(st.Val)
-			if _, isC := val.(*ssa.Const); isC {
-				continue
-			}
-			if rootedAt(val, opts) {
-				continue
-			}
-			if _, isAl := val.(*ssa.Alloc); isAl {
-				if ok, w := c10FromOpts(val, opts); ok {
+		switch r := ref.(type) {
+		case *ssa.Store:
+			if r.Addr == ssa.Value(al) {
+				if k, isC := r.Val.(*ssa.Const); isC {
+					_ = k
 					continue
-				} else {
+				}
+				n++
+				if ok, w := c10FromOpts(cx, r.Val, opts, d+1); !ok {
 					return false, w
 				}
 			}
-			return false, "the object compared with the agreed proposal has a member that does not come from the submission"
+		case *ssa.FieldAddr:
+			for _, r2 := range *r.Referrers() {
+				st, ok := r2.(*ssa.Store)
+				if !ok || st.Addr != ssa.Value(r) {
+					continue
+				}
+				n++
+				val := an.Resolve(st.Val)
+				if _, isC := val.(*ssa.Const); isC {
+					continue
+				}
+				if c10RootedAt(cx.term(val), opts) {
+					continue
+				}
+				if ok, w := c10FromOpts(cx, val, opts, d+1); ok {
+					continue
+				} else if _, isAl := val.(*ssa.Alloc); isAl {
+					return false, w
+				}
+				return false, "the object compared with the agreed proposal has a member that does not come from the submission"
+			}
 		}
 	}
 	if n == 0 {
 		return false, "the object compared with the agreed proposal is empty"
 	}
 	return true, ""
-}
-
-// c10FieldPath: v is loaded through a chain of field selections from root; returns the field names.
-// pure is false if anything but loads and field selections is on the way.
-func c10FieldPath(v ssa.Value, root ssa.Value) (names []string, pure bool, ok bool) {
-	pure = true
-	for i := 0; i < 16; i++ {
-		v = an.Unwrap(v)
-		if v == root {
-			for l, r := 0, len(names)-1; l < r; l, r = l+1, r-1 {
-				names[l], names[r] = names[r], names[l]
-			}
-			return names, pure, len(names) > 0
-		}
-		switch x := v.(type) {
-		case *ssa.UnOp:
-			if x.Op != token.MUL {
-				return nil, false, false
-			}
-			v = x.X
-		case *ssa.FieldAddr:
-			names = append(names, c10FieldName(x.X.Type(), x.Field))
-			v = x.X
-		case *ssa.Field:
-			names = append(names, c10FieldName(x.X.Type(), x.Field))
-			v = x.X
-		default:
-			return nil, false, false
-		}
-	}
-	return nil, false, false
-}
-
-func c10FieldName(t types.Type, idx int) string {
-	k := an.FieldKey(t, idx)
-	return k[strings.LastIndex(k, ".")+1:]
 }
 
 // c10ForkOf picks the fork payload member of a field path: prop.Deneb.Block -> "Deneb",
@@ -1389,86 +2175,6 @@ func c10ForkOf(path []string) string {
 		return p
 	}
 	return ""
-}
-
-// c10CaseConst returns the name of the data-version constant of the switch case (on prop.Version)
-// that dominates block b, "" if none.
-func c10CaseConst(fn *ssa.Function, b *ssa.BasicBlock, root ssa.Value) string {
-	best := ""
-	var bestBlk *ssa.BasicBlock
-	for _, blk := range fn.Blocks {
-		iff, ok := blk.Instrs[len(blk.Instrs)-1].(*ssa.If)
-		if !ok {
-			continue
-		}
-		bin, ok := iff.Cond.(*ssa.BinOp)
-		if !ok || bin.Op != token.EQL {
-			continue
-		}
-		k, ok := bin.Y.(*ssa.Const)
-		if !ok || k.Value == nil {
-			continue
-		}
-		path, _, ok := c10FieldPath(bin.X, root)
-		if !ok || path[len(path)-1] != "Version" {
-			continue
-		}
-		t := blk.Succs[0]
-		if len(t.Preds) == 1 && t.Dominates(b) && (bestBlk == nil || bestBlk.Dominates(t)) {
-			best, bestBlk = c10ConstName(k), t
-		}
-	}
-	return best
-}
-
-// c10BlindedEdge: 1 if b is dominated by the true edge of a test of root.Blinded, 0 by the false edge, -1 none.
-func c10BlindedEdge(fn *ssa.Function, b *ssa.BasicBlock, root ssa.Value) int {
-	res := -1
-	for _, in := range an.Instrs(fn, false) {
-		v, ok := in.(ssa.Value)
-		if !ok {
-			continue
-		}
-		path, _, ok := c10FieldPath(v, root)
-		if !ok || len(path) != 1 || path[0] != "Blinded" {
-			continue
-		}
-		if _, isLoad := v.(*ssa.UnOp); !isLoad {
-			continue
-		}
-		for _, cd := range an.CondsOn(fn, v) {
-			if cd.Other != nil {
-				continue
-			}
-			if t := cd.Succ(true); len(t.Preds) == 1 && t.Dominates(b) {
-				res = 1
-			}
-			if f := cd.Succ(false); len(f.Preds) == 1 && f.Dominates(b) && res != 1 {
-				res = 0
-			}
-		}
-	}
-	return res
-}
-
-// c10Deref looks through a load of a local that is stored exactly once.
-func c10Deref(v ssa.Value) ssa.Value {
-	for i := 0; i < 4; i++ {
-		ld, ok := an.Unwrap(v).(*ssa.UnOp)
-		if !ok || ld.Op != token.MUL {
-			return an.Unwrap(v)
-		}
-		al, ok := ld.X.(*ssa.Alloc)
-		if !ok || c10StoresTo(al) != 1 {
-			return an.Unwrap(v)
-		}
-		for _, ref := range *al.Referrers() {
-			if st, ok := ref.(*ssa.Store); ok && st.Addr == ssa.Value(al) {
-				v = st.Val
-			}
-		}
-	}
-	return an.Unwrap(v)
 }
 
 // c10ConstName renders an enum constant by its declared name (via String-less lookup in its package).
@@ -1508,149 +2214,258 @@ func c10SwitchConsts(fn *ssa.Function, isTag func(ssa.Value) bool) []string {
 	return out
 }
 
-// c10RootOf: v is the root (tuple element 0) of an invoke HashTreeRoot() on a parameter: returns the
-// receiver and the call.
-func c10RootOf(v ssa.Value) (ssa.Value, ssa.CallInstruction) {
-	ex, ok := an.Unwrap(v).(*ssa.Extract)
-	if !ok || ex.Index != 0 {
-		return nil, nil
-	}
-	call, ok := ex.Tuple.(*ssa.Call)
-	if !ok || !call.Call.IsInvoke() || call.Call.Method.Name() != "HashTreeRoot" {
-		return nil, nil
-	}
-	return an.Unwrap(call.Call.Value), call
-}
-
 // ---------------------------------------------------------------------------------------------
 // H6
 
 func c10H6(c *rt.Ctx) {
 	fn := c.Fn("app.wireCoreWorkflow")
+	sums := c10NewSums()
+	const appPfx = "app."
+	static := func(name string) func(ssa.Instruction) bool {
+		return func(in ssa.Instruction) bool {
+			call, ok := in.(ssa.CallInstruction)
+			return ok && an.Static(name)(call.Common())
+		}
+	}
+	one := func(name string) c10At {
+		sites := c10Down(fn, static(name))
+		if len(sites) != 1 {
+			c.Bail("expected exactly one call to %s in (or below) %s, found %d", name, an.FuncName(fn), len(sites))
+		}
+		return sites[0]
+	}
 	// parsigex wiring
-	psx := c.OneCall(fn, an.Static("core/parsigex.NewParSigEx"), "parsigex.NewParSigEx", false)
+	psx := one("core/parsigex.NewParSigEx")
 	ctor := c.Fn("core/parsigex.NewParSigEx")
 	var verIdx, gateIdx = -1, -1
 	for i, p := range ctor.Params {
-		switch {
-		case an.TypeName(p.Type()) == "core.DutyGaterFunc":
+		if an.TypeName(p.Type()) == "core.DutyGaterFunc" {
 			gateIdx = i
-		case p.Name() == "verifyFunc":
+			continue
+		}
+		if sig, ok := p.Type().(*types.Signature); ok && sig.Results().Len() == 1 && an.IsErrorType(sig.Results().At(0).Type()) &&
+			c10ParamIdx(sig, c10PSDType, false) >= 0 && c10ParamIdx(sig, c10PubKeyT, false) >= 0 {
+			if verIdx >= 0 {
+				c.Bail("NewParSigEx: more than one verification function parameter")
+			}
 			verIdx = i
 		}
 	}
 	if verIdx < 0 || gateIdx < 0 {
 		c.Bail("NewParSigEx: verifyFunc/gaterFunc parameters not found")
 	}
-	fromCall := func(v ssa.Value, callee string, sink ssa.Instruction) *ssa.Call {
-		ex, ok := an.Unwrap(v).(*ssa.Extract)
-		if !ok || ex.Index != 0 {
-			return nil
-		}
-		call, ok := ex.Tuple.(*ssa.Call)
-		if !ok || !an.Static(callee)(&call.Call) {
-			return nil
-		}
-		if g, _ := an.Guarded(call, sink, an.DefaultGuard); !g {
-			return nil
-		}
-		return call
+	psxArgs := psx.in.(ssa.CallInstruction).Common().Args
+	tracked := c10Named("core/parsigex.NewEth2Verifier", "core.NewDutyGater")
+	states, w, overflow := c10StatesAtSite(func(f *ssa.Function, ch c10Chain) *c10W {
+		return &c10W{fn: f, ch: ch, tracked: tracked, sums: sums, keep: func(t *c10T) bool { return c10Mentions(t, tracked) }}
+	}, psx)
+	if overflow || len(states) == 0 {
+		c.Bail("wireCoreWorkflow: paths to parsigex.NewParSigEx not enumerable")
 	}
-	ver := fromCall(psx.Common().Args[verIdx], "core/parsigex.NewEth2Verifier", psx)
-	c.Check("wireCoreWorkflow parsigex verifier = NewEth2Verifier", psx.Pos(), ver != nil, "production ParSigEx is not given the checked result of parsigex.NewEth2Verifier")
-	gate := fromCall(psx.Common().Args[gateIdx], "core.NewDutyGater", psx)
-	c.Check("wireCoreWorkflow parsigex gater = NewDutyGater", psx.Pos(), gate != nil, "production ParSigEx is not given the checked result of core.NewDutyGater")
+	fromCall := func(v ssa.Value, callee string, bad string) (c10Verdict, *c10T) {
+		res := c10Verdict{ok: true}
+		var callT *c10T
+		for _, st := range states {
+			cx := c10Cx{w: w, ch: psx.ch, st: st}
+			t := cx.term(v)
+			switch {
+			case !(t.is("ext", "0") && t.args[0].op == "call" && c10CallName(t.args[0]) == callee):
+				res = c10Verdict{why: bad, unsure: c10LeafUnsure(t, appPfx)}
+			case cx.lookupFact(c10mk("ext", "1", t.args[0])) != c10Nil:
+				res = c10Verdict{why: bad + " (its error does not stop the wiring)", unsure: st.taint}
+			default:
+				if callT != nil && callT.s != t.args[0].s {
+					res = c10Verdict{why: bad + " (differs between paths)", unsure: true}
+				}
+				callT = t.args[0]
+			}
+		}
+		return res, callT
+	}
+	ver, verT := fromCall(psxArgs[verIdx], "core/parsigex.NewEth2Verifier", "production ParSigEx is not given the checked result of parsigex.NewEth2Verifier")
+	ver.report(c, "wireCoreWorkflow parsigex verifier = NewEth2Verifier", psx.in.Pos())
+	gate, _ := fromCall(psxArgs[gateIdx], "core.NewDutyGater", "production ParSigEx is not given the checked result of core.NewDutyGater")
+	gate.report(c, "wireCoreWorkflow parsigex gater = NewDutyGater", psx.in.Pos())
 	// validator API wiring
-	vapi := c.OneCall(fn, an.Static(c10Vapi+".NewComponent"), "validatorapi.NewComponent", false)
+	vapi := one(c10Vapi + ".NewComponent")
 	var tbl ssa.Value
-	for _, a := range vapi.Common().Args {
+	for _, a := range vapi.in.(ssa.CallInstruction).Common().Args {
 		if an.IsMapType(a.Type()) {
-			tbl = an.Unwrap(a)
+			if tbl != nil {
+				c.Bail("validatorapi.NewComponent: more than one map argument")
+			}
+			tbl = a
 		}
 	}
-	mm, isMake := tbl.(*ssa.MakeMap)
-	if !isMake {
-		c.Bail("share table given to validatorapi.NewComponent is not a local map")
+	if tbl == nil {
+		c.Bail("validatorapi.NewComponent: no share table argument")
 	}
-	same := ver != nil && len(ver.Call.Args) == 2 && an.Unwrap(ver.Call.Args[1]) == tbl
-	c.Check("wireCoreWorkflow same share table for vapi and parsigex", vapi.Pos(), same, "validatorapi.NewComponent and parsigex.NewEth2Verifier are given different share tables")
+	vw := &c10W{fn: vapi.in.Parent(), ch: vapi.ch, sums: sums}
+	vcx := c10Cx{w: vw, ch: vapi.ch, st: c10NewState()}
+	tblT := vcx.term(tbl)
+	same := ver.ok && verT != nil && len(verT.args) == 2 && verT.args[1].s == tblT.s
+	c10Verdict{ok: same, unsure: !ver.ok || c10LeafUnsure(tblT, appPfx), why: "validatorapi.NewComponent and parsigex.NewEth2Verifier are given different share tables"}.
+		report(c, "wireCoreWorkflow same share table for vapi and parsigex", vapi.in.Pos())
 	// table[corePubkey(val.PubKey)][i+1] = pubkey(val.PubShares[i])
-	ups := mapUpdates(fn, func(m ssa.Value) bool { return m == ssa.Value(mm) })
+	mm, mcx := c10MadeMap(vcx, tbl)
+	if mm == nil {
+		c.Bail("share table given to validatorapi.NewComponent is not a map made by wireCoreWorkflow or a helper it calls")
+	}
+	ups := c10UpdatesOf(mcx, mm)
 	if len(ups) == 0 {
-		c.Bail("share table is never filled in wireCoreWorkflow")
+		c.Bail("share table is never filled")
 	}
 	for _, up := range ups {
-		good, why := c10ShareTableEntry(fn, up)
-		c.Check("wireCoreWorkflow share table entry = lock public shares, 1-indexed", posOf(up), good, why)
+		c10ShareTableEntry(mcx, up, appPfx).report(c, "wireCoreWorkflow share table entry = lock public shares, 1-indexed", posOf(up))
 	}
 	// NewComponent: getVerifyShareFunc(pubkey) = allPubSharesByKey[pubkey][shareIdx]
 	nc := c.Fn(c10Vapi + ".NewComponent")
-	good, why := c10VerifyShareTable(c, nc)
-	c.Check("NewComponent getVerifyShareFunc = allPubSharesByKey[pubkey][shareIdx]", nc.Pos(), good, why)
+	c10VerifyShareTable(c, nc, sums).report(c, "NewComponent getVerifyShareFunc = allPubSharesByKey[pubkey][shareIdx]", nc.Pos())
 }
 
-func c10ShareTableEntry(fn *ssa.Function, up *ssa.MapUpdate) (bool, string) {
-	// key: core.PubKeyFromBytes(val.PubKey)
-	var val ssa.Value
-	if ex, ok := an.Unwrap(up.Key).(*ssa.Extract); ok && ex.Index == 0 {
-		if call, ok := ex.Tuple.(*ssa.Call); ok && an.Static("core.PubKeyFromBytes")(&call.Call) {
-			if k, base, ok := an.FieldOf(call.Call.Args[0]); ok && k == "cluster.DistValidator.PubKey" {
-				val = base
+// c10MadeMap follows v to the make(map) it denotes: through single-assignment locals, captured
+// variables, parameters of the call chain and the result of an in-package helper.
+func c10MadeMap(cx c10Cx, v ssa.Value) (*ssa.MakeMap, c10Cx) {
+	for i := 0; i < 12; i++ {
+		v = c10Strip(v)
+		switch x := v.(type) {
+		case *ssa.MakeMap:
+			return x, cx
+		case *ssa.UnOp:
+			if x.Op != token.MUL {
+				return nil, cx
 			}
-		}
-	}
-	if val == nil {
-		return false, "table key is not core.PubKeyFromBytes(val.PubKey) of a lock validator"
-	}
-	inner, ok := an.Unwrap(up.Value).(*ssa.MakeMap)
-	if !ok {
-		return false, "per-validator share map is not built here"
-	}
-	n := 0
-	for _, ref := range *inner.Referrers() {
-		iu, ok := ref.(*ssa.MapUpdate)
-		if !ok || iu.Map != ssa.Value(inner) {
-			continue
-		}
-		n++
-		// value: tblsconv.PubkeyFromBytes(val.PubShares[i]) checked
-		var idx ssa.Value
-		if ex, ok := an.Unwrap(iu.Value).(*ssa.Extract); ok && ex.Index == 0 {
-			if call, ok := ex.Tuple.(*ssa.Call); ok && an.Static("tbls/tblsconv.PubkeyFromBytes")(&call.Call) {
-				if ld, ok := an.Unwrap(call.Call.Args[0]).(*ssa.UnOp); ok {
-					if ia, ok := ld.X.(*ssa.IndexAddr); ok {
-						if k, base, ok := an.FieldOf(ia.X); ok && k == "cluster.DistValidator.PubShares" && base == val {
-							idx = ia.Index
+			switch p := c10Strip(x.X).(type) {
+			case *ssa.Alloc:
+				if s := c10WholeStore(p); s != nil {
+					v = s
+					continue
+				}
+			case *ssa.FreeVar:
+				if b, bcx, ok := cx.binding(p); ok {
+					if al, isAl := b.(*ssa.Alloc); isAl {
+						if s := c10WholeStore(al); s != nil {
+							v, cx = s, bcx
+							continue
 						}
 					}
 				}
 			}
-		}
-		if idx == nil {
-			return false, "share value is not tblsconv.PubkeyFromBytes(val.PubShares[i]) of the same validator"
-		}
-		bin, ok := an.Unwrap(iu.Key).(*ssa.BinOp)
-		if !ok || bin.Op != token.ADD || bin.X != idx {
-			return false, "share index key is not i+1 for the position i of the share in the lock"
-		}
-		if n1, ok := an.ConstInt(bin.Y); !ok || n1 != 1 {
-			return false, "share index key is not i+1 for the position i of the share in the lock"
+			return nil, cx
+		case *ssa.Call:
+			if r, rcx, ok := cx.inline(x, 0); ok {
+				v, cx = r, rcx
+				continue
+			}
+			return nil, cx
+		case *ssa.Extract:
+			if call, ok := x.Tuple.(*ssa.Call); ok {
+				if r, rcx, ok := cx.inline(call, x.Index); ok {
+					v, cx = r, rcx
+					continue
+				}
+			}
+			return nil, cx
+		case *ssa.Parameter:
+			fn := x.Parent()
+			if len(cx.ch) > 0 && c10Callee(cx.ch[0]) == an.Orig(fn) {
+				found := false
+				for i, p := range fn.Params {
+					if p == x && i < len(cx.ch[0].Common().Args) {
+						v = cx.ch[0].Common().Args[i]
+						cx.ch = cx.ch[1:]
+						found = true
+					}
+				}
+				if found {
+					continue
+				}
+			}
+			return nil, cx
+		default:
+			return nil, cx
 		}
 	}
-	if n == 0 {
-		return false, "per-validator share map is never filled"
-	}
-	return true, ""
+	return nil, cx
 }
 
-func c10VerifyShareTable(c *rt.Ctx, nc *ssa.Function) (bool, string) {
+// c10UpdatesOf lists the insertions into the made map in its own function (directly or through the
+// local variable that holds it).
+func c10UpdatesOf(cx c10Cx, mm *ssa.MakeMap) []*ssa.MapUpdate {
+	want := cx.term(mm).s
+	var out []*ssa.MapUpdate
+	for _, in := range an.Instrs(mm.Parent(), false) {
+		if up, ok := in.(*ssa.MapUpdate); ok && cx.term(up.Map).s == want {
+			out = append(out, up)
+		}
+	}
+	return out
+}
+
+func c10ShareTableEntry(cx c10Cx, up *ssa.MapUpdate, pfx string) c10Verdict {
+	// key: core.PubKeyFromBytes(val.PubKey)
+	keyT := cx.term(up.Key)
+	var val *c10T
+	if keyT.is("ext", "0") && keyT.args[0].is("call", "core.PubKeyFromBytes") && len(keyT.args[0].args) == 1 {
+		if a := keyT.args[0].args[0]; a.is("fld", "PubKey") {
+			val = a.args[0]
+		}
+	}
+	if val == nil {
+		return c10Verdict{why: "table key is not core.PubKeyFromBytes(val.PubKey) of a lock validator", unsure: c10LeafUnsure(keyT, pfx)}
+	}
+	inner, icx := c10MadeMap(cx, up.Value)
+	if inner == nil {
+		return c10Verdict{why: "per-validator share map is not built here", unsure: c10LeafUnsure(cx.term(up.Value), pfx)}
+	}
+	ups := c10UpdatesOf(icx, inner)
+	if len(ups) == 0 {
+		return c10Verdict{why: "per-validator share map is never filled"}
+	}
+	for _, iu := range ups {
+		// value: tblsconv.PubkeyFromBytes(val.PubShares[i])
+		vT := icx.term(iu.Value)
+		var idx *c10T
+		unsure := c10LeafUnsure(vT, pfx)
+		if vT.is("ext", "0") && vT.args[0].op == "call" && c10CallName(vT.args[0]) == "tbls/tblsconv.PubkeyFromBytes" && len(vT.args[0].args) == 1 {
+			a := vT.args[0].args[0]
+			unsure = c10LeafUnsure(a, pfx)
+			if a.is("idx") && len(a.args) == 2 && a.args[0].is("fld", "PubShares") {
+				if a.args[0].args[0].s == val.s {
+					idx = a.args[1]
+				} else {
+					unsure = c10DiffUnsure(a.args[0].args[0], val, pfx)
+				}
+			}
+		}
+		if idx == nil {
+			return c10Verdict{why: "share value is not tblsconv.PubkeyFromBytes(val.PubShares[i]) of the same validator", unsure: unsure}
+		}
+		kT := icx.term(iu.Key)
+		one := c10mk("const", "1/int")
+		a, b := one, idx
+		if b.s < a.s {
+			a, b = b, a
+		}
+		if kT.s != c10mk("binop", "+", a, b).s {
+			return c10Verdict{why: "share index key is not i+1 for the position i of the share in the lock", unsure: c10LeafUnsure(kT, pfx)}
+		}
+	}
+	return c10Verdict{ok: true}
+}
+
+func c10VerifyShareTable(c *rt.Ctx, nc *ssa.Function, sums *c10Sums) c10Verdict {
+	const pfx = c10Vapi + "."
 	gvsKey := c10Field(c, c10Vapi, "Component", "getVerifyShareFunc")
 	var tableP, idxP *ssa.Parameter
 	for _, p := range nc.Params {
 		if mt, ok := p.Type().Underlying().(*types.Map); ok && an.TypeName(mt.Key()) == c10PubKeyT {
 			tableP = p
 		}
-		if p.Name() == "shareIdx" {
+		if b, ok := p.Type().(*types.Basic); ok && b.Kind() == types.Int {
+			if idxP != nil {
+				c.Bail("NewComponent: more than one int parameter")
+			}
 			idxP = p
 		}
 	}
@@ -1659,7 +2474,6 @@ func c10VerifyShareTable(c *rt.Ctx, nc *ssa.Function) (bool, string) {
 	}
 	// the closure stored in getVerifyShareFunc
 	var cl *ssa.Function
-	var mc *ssa.MakeClosure
 	for _, in := range an.Instrs(nc, false) {
 		st, ok := in.(*ssa.Store)
 		if !ok {
@@ -1669,102 +2483,81 @@ func c10VerifyShareTable(c *rt.Ctx, nc *ssa.Function) (bool, string) {
 		if !ok || an.FieldKey(fa.X.Type(), fa.Field) != gvsKey {
 			continue
 		}
-		m, ok := an.Unwrap(st.Val).(*ssa.MakeClosure)
+		m, ok := an.Resolve(st.Val).(*ssa.MakeClosure)
 		if !ok {
-			return false, "getVerifyShareFunc is not a function literal of NewComponent"
+			return c10Verdict{why: "getVerifyShareFunc is not a function literal of NewComponent", unsure: true}
 		}
-		mc, cl = m, m.Fn.(*ssa.Function)
+		cl = m.Fn.(*ssa.Function)
 	}
 	if cl == nil {
-		return false, "NewComponent does not set getVerifyShareFunc"
+		return c10Verdict{why: "NewComponent does not set getVerifyShareFunc"}
+	}
+	if len(cl.Params) != 1 {
+		c.Bail("getVerifyShareFunc: unexpected signature")
 	}
 	// closure: every (value, nil) return is a checked comma-ok lookup of the captured map under the parameter
-	var local ssa.Value
-	for _, r := range an.Returns(cl) {
-		if len(r.Results) != 2 || c10NonNil(r.Results[1], r) {
-			continue
-		}
-		ex, ok := an.Unwrap(r.Results[0]).(*ssa.Extract)
-		if !ok || ex.Index != 0 {
-			return false, "getVerifyShareFunc returns a share that is not looked up"
-		}
-		lk, ok := ex.Tuple.(*ssa.Lookup)
-		if !ok || !lk.CommaOk || an.Unwrap(lk.Index) != ssa.Value(cl.Params[0]) {
-			return false, "getVerifyShareFunc does not look the share up under the requested pubkey"
-		}
-		if !c10CommaOkChecked(lk, r) {
-			return false, "getVerifyShareFunc returns the zero share with a nil error for an unknown pubkey"
-		}
-		ld, ok := an.Unwrap(lk.X).(*ssa.UnOp)
-		if !ok {
-			return false, "getVerifyShareFunc reads an unknown table"
-		}
-		fv, ok := ld.X.(*ssa.FreeVar)
-		if !ok {
-			return false, "getVerifyShareFunc reads an unknown table"
-		}
-		for i, f := range cl.FreeVars {
-			if f == fv {
-				local = mc.Bindings[i]
-			}
-		}
+	w := &c10W{fn: cl, sums: sums}
+	states, rets := c10SuccessStates(w)
+	if w.overflow || len(states) == 0 {
+		return c10Verdict{why: "getVerifyShareFunc has no successful return", unsure: w.overflow}
 	}
-	al, ok := local.(*ssa.Alloc)
-	if !ok {
-		return false, "getVerifyShareFunc has no successful return"
-	}
-	// the captured map variable holds one MakeMap, filled as m[corePubkey] = shares[shareIdx]
-	var m ssa.Value
-	for _, ref := range *al.Referrers() {
-		if st, ok := ref.(*ssa.Store); ok && st.Addr == ssa.Value(al) {
-			if m != nil {
-				return false, "table captured by getVerifyShareFunc is reassigned"
-			}
-			m = st.Val
+	pkT := w.cx(c10NewState()).term(cl.Params[0])
+	var local *c10T
+	for i, st := range states {
+		cx := w.cx(st)
+		rv := returnValues(rets[i])
+		t := cx.term(rv[0])
+		switch {
+		case !t.is("lookup") || len(t.args) != 2:
+			return c10Verdict{why: "getVerifyShareFunc returns a share that is not looked up", unsure: c10LeafUnsure(t, pfx)}
+		case t.args[1].s != pkT.s:
+			return c10Verdict{why: "getVerifyShareFunc does not look the share up under the requested pubkey"}
+		case cx.lookupFact(c10mk("lookupok", t.name, t.args...)) != c10True:
+			return c10Verdict{why: "getVerifyShareFunc returns the zero share with a nil error for an unknown pubkey"}
+		case local != nil && local.s != t.args[0].s:
+			return c10Verdict{why: "getVerifyShareFunc reads more than one table", unsure: true}
 		}
+		local = t.args[0]
 	}
-	if _, ok := m.(*ssa.MakeMap); !ok {
-		return false, "table captured by getVerifyShareFunc is not built in NewComponent"
+	if !local.is("makemap") {
+		return c10Verdict{why: "table captured by getVerifyShareFunc is not built in NewComponent (or is reassigned)", unsure: c10LeafUnsure(local, pfx)}
 	}
+	// the captured map is filled as m[corePubkey] = allPubSharesByKey[corePubkey][shareIdx]
+	ncx := (&c10W{fn: nc, sums: sums}).cx(c10NewState())
+	tableT, idxT := ncx.term(tableP), ncx.term(idxP)
 	n := 0
-	for _, in := range an.Instrs(nc, true) {
+	for _, in := range an.Instrs(nc, false) {
 		up, ok := in.(*ssa.MapUpdate)
-		if !ok {
-			continue
-		}
-		ld, ok := up.Map.(*ssa.UnOp)
-		if !ok || ld.X != ssa.Value(al) {
+		if !ok || ncx.term(up.Map).s != local.s {
 			continue
 		}
 		n++
-		l := an.InnermostLoop(up.Parent(), up.Block())
-		if l == nil || up.Parent() != nc {
-			return false, "verify-share table is filled outside the loop over allPubSharesByKey"
+		keyT, valT := ncx.term(up.Key), ncx.term(up.Value)
+		var next *c10T
+		if keyT.is("ext", "1") && keyT.args[0].op == "next" && len(keyT.args[0].args) == 1 && keyT.args[0].args[0].op == "range" &&
+			keyT.args[0].args[0].args[0].s == tableT.s {
+			next = keyT.args[0]
 		}
-		coll := l.RangeColl()
-		if coll == nil || !rootedAt(coll, tableP) {
-			return false, "verify-share table is not filled from the allPubSharesByKey parameter"
+		if next == nil {
+			return c10Verdict{why: "verify-share table key is not the validator key of an iteration over allPubSharesByKey", unsure: c10LeafUnsure(keyT, pfx)}
 		}
-		key, ok := an.Unwrap(up.Key).(*ssa.Extract)
-		if !ok || key.Index != 1 || !l.ElemOf(key) {
-			return false, "verify-share table key is not the validator key of the iteration"
+		if !valT.is("lookup") || len(valT.args) != 2 {
+			return c10Verdict{why: "verify-share table value is not shares[shareIdx]", unsure: c10LeafUnsure(valT, pfx)}
 		}
-		lk, ok := c10Deref(up.Value).(*ssa.Lookup)
-		if !ok {
-			return false, "verify-share table value is not shares[shareIdx]"
+		shares := valT.args[0]
+		fromIter := shares.is("ext", "2") && shares.args[0].s == next.s
+		fromTable := shares.is("lookup") && len(shares.args) == 2 && shares.args[0].s == tableT.s && shares.args[1].s == keyT.s
+		if !fromIter && !fromTable {
+			return c10Verdict{why: "verify-share table value is not taken from the shares of the same validator", unsure: c10LeafUnsure(shares, pfx)}
 		}
-		sh, ok := an.Unwrap(lk.X).(*ssa.Extract)
-		if !ok || sh.Index != 2 || !l.ElemOf(sh) {
-			return false, "verify-share table value is not taken from the shares of the same validator"
-		}
-		if !rootedAt(lk.Index, idxP) {
-			return false, "verify-share table value is not the share of this node's shareIdx"
+		if !c10RootedAt(valT.args[1], idxT) {
+			return c10Verdict{why: "verify-share table value is not the share of this node's shareIdx"}
 		}
 	}
 	if n == 0 {
-		return false, "verify-share table is never filled"
+		return c10Verdict{why: "verify-share table is never filled"}
 	}
-	return true, ""
+	return c10Verdict{ok: true}
 }
 
 // ---------------------------------------------------------------------------------------------
@@ -1893,4 +2686,75 @@ var c10Mutants = []Mutant{
 	{ID: "C10-H6-next-nodes-share", File: c10VapiFile, Expect: "H6|getVerifyShareFunc",
 		Old: "\t\tpubshare := shares[shareIdx]",
 		New: "\t\tpubshare := shares[shareIdx+1]"},
+	// ---- added with the path-sensitive reformulation (mechanisms it could have weakened)
+	// the status of the verification is overwritten before it is tested (value tracking, not variable names)
+	{ID: "C10-H1-aggatt-status-overwritten", File: c10VapiFile, Expect: "H1|SubmitAggregateAttestations",
+		Old: "\t\t// Verify outer partial signature.\n\t\terr = c.verifyPartialSig(ctx, parSigData, pk)\n\t\tif err != nil {\n\t\t\treturn err\n\t\t}",
+		New: "\t\t// Verify outer partial signature.\n\t\terr = c.verifyPartialSig(ctx, parSigData, pk)\n\t\t_, err = agg.Slot()\n\t\tif err != nil {\n\t\t\treturn err\n\t\t}"},
+	// another condition than the verification status decides the early return
+	{ID: "C10-H1-att-wrong-status-tested", File: c10VapiFile, Expect: "H1|SubmitAttestations",
+		Old: "\t\terr = c.verifyPartialSig(ctx, parSigData, pubkey)\n\t\tif err != nil {\n\t\t\treturn err\n\t\t}\n\n\t\t// Encode partial signed data and add to a set",
+		New: "\t\terr = c.verifyPartialSig(ctx, parSigData, pubkey)\n\t\tif ctx.Err() != nil {\n\t\t\treturn err\n\t\t}\n\n\t\t// Encode partial signed data and add to a set"},
+	// polarity of the check inverted: the insertion happens exactly when the verification failed
+	{ID: "C10-H1-selection-polarity-inverted", File: c10VapiFile, Expect: "H1|BeaconCommitteeSelections",
+		Old: "\t\t// Verify slot signature.\n\t\terr = c.verifyPartialSig(ctx, parSigData, pubkey)\n\t\tif err != nil {\n\t\t\treturn nil, err\n\t\t}",
+		New: "\t\t// Verify slot signature.\n\t\terr = c.verifyPartialSig(ctx, parSigData, pubkey)\n\t\tif err == nil {\n\t\t\treturn nil, err\n\t\t}"},
+	// only the first element of the request is verified; the values of later iterations ride on a stale success
+	{ID: "C10-H1-contrib-verify-first-only", File: c10VapiFile, Expect: "H1|SubmitSyncCommitteeContributions",
+		Old: "\t\terr = c.verifyPartialSig(ctx, parSigData, pk)\n\t\tif err != nil {\n\t\t\treturn err\n\t\t}\n\n\t\tkey := slotSubcomm{Slot: slot, SubcommIdx: subcommIdx}",
+		New: "\t\tif len(psigsBySlotSubcomm) == 0 {\n\t\t\terr = c.verifyPartialSig(ctx, parSigData, pk)\n\t\t\tif err != nil {\n\t\t\t\treturn err\n\t\t\t}\n\t\t}\n\n\t\tkey := slotSubcomm{Slot: slot, SubcommIdx: subcommIdx}"},
+	{ID: "C10-H2-share-of-other-key", File: c10VapiFile, Expect: "H2|verifyPartialSig",
+		Old: "\tpubshare, err := c.getVerifyShareFunc(pubkey)\n\tif err != nil {\n\t\treturn err\n\t}",
+		New: "\tpubshare, err := c.getVerifyShareFunc(core.PubKey(c.eth2Cl.Address()))\n\tif err != nil {\n\t\treturn err\n\t}"},
+	{ID: "C10-H2-aggproof-other-validator-key", File: c10VapiFile, Expect: "H2|SubmitAggregateAttestations",
+		Old: "\t\t\terr = signing.VerifyAggregateAndProofSelection(ctx, c.eth2Cl, tbls.PublicKey(eth2Pubkey), agg)",
+		New: "\t\t\terr = signing.VerifyAggregateAndProofSelection(ctx, c.eth2Cl, tbls.PublicKey(vals[0]), agg)"},
+	{ID: "C10-H3-gater-inverted", File: c10PSXFile, Expect: "H3|gaterFunc",
+		Old: "\tif !m.gaterFunc(duty) {",
+		New: "\tif m.gaterFunc(duty) {"},
+	// the set that was verified is dropped; the subscribers receive a second, unverified decoding of the request
+	{ID: "C10-H3-subs-get-redecoded-set", File: c10PSXFile, Expect: "H3|verifyFunc",
+		Old: "\t\terr := sub(ctx, duty, set)",
+		New: "\t\tother, err := core.ParSignedDataSetFromProto(duty.Type, pb.GetDataSet())\n\t\tif err != nil {\n\t\t\tcontinue\n\t\t}\n\n\t\terr = sub(ctx, duty, other)"},
+	{ID: "C10-H3-verify-other-duty", File: c10PSXFile, Expect: "H3|verifyFunc",
+		Old: "\t\tif err = m.verifyFunc(ctx, sender, duty, pubkey, data); err != nil {",
+		New: "\t\tif err = m.verifyFunc(ctx, sender, core.Duty{Slot: duty.Slot, Type: core.DutyAttester}, pubkey, data); err != nil {"},
+	{ID: "C10-H4-signeddata-assert-unchecked-nil-return", File: c10PSXFile, Expect: "H4|nil only via",
+		Old: "\t\tif !ok {\n\t\t\treturn errors.New(\"invalid eth2 signed data\")\n\t\t}",
+		New: "\t\tif !ok {\n\t\t\treturn nil\n\t\t}"},
+	{ID: "C10-H5-blinded-check-dropped", File: c10VapiFile, Expect: "H5|Blinded equal",
+		Old: "\tif opts.Proposal.Blinded != prop.Blinded {",
+		New: "\tif opts.Proposal.Blinded != prop.Blinded && prop.Version == eth2spec.DataVersionPhase0 {"},
+	{ID: "C10-H5-deneb-compares-electra-payload", File: c10VapiFile, Expect: "H5|propDataMatchesDuty",
+		Old: "\t\treturn checkHashes(prop.Deneb.Block, opts.Proposal.Deneb.SignedBlock.Message)",
+		New: "\t\treturn checkHashes(prop.Deneb.Block, opts.Proposal.Electra.SignedBlock.Message)"},
+	{ID: "C10-H5-roots-error-ignored", File: c10VapiFile, Expect: "H5|checkHashes",
+		Old: "\t\tvc, err := d2.HashTreeRoot()\n\t\tif err != nil {\n\t\t\treturn errors.Wrap(err, \"hash tree root dutydb\")\n\t\t}",
+		New: "\t\tvc, _ := d2.HashTreeRoot()"},
+	{ID: "C10-H5-blinded-await-error-ignored", File: c10VapiFile, Expect: "H5|SubmitBlindedProposal",
+		Old: "\tctx = log.WithCtx(ctx, z.Any(\"duty\", duty))\n\n\tpubkey, err := c.getProposerPubkey(ctx, duty)\n\tif err != nil {\n\t\treturn err\n\t}\n\n\tprop, err := c.awaitProposalFunc(ctx, uint64(slot))\n\tif err != nil {\n\t\treturn errors.Wrap(err, \"could not fetch block definition from dutydb\")\n\t}",
+		New: "\tctx = log.WithCtx(ctx, z.Any(\"duty\", duty))\n\n\tpubkey, err := c.getProposerPubkey(ctx, duty)\n\tif err != nil {\n\t\treturn err\n\t}\n\n\tprop, err := c.awaitProposalFunc(ctx, uint64(slot))\n\tif err != nil {\n\t\tprop = new(eth2api.VersionedProposal)\n\t}"},
+	{ID: "C10-H6-fresh-table-for-vapi", File: "app/app.go", Expect: "H6|same share table",
+		Old: "validatorapi.NewComponent(eth2Cl, allPubSharesByKey, nodeIdx.ShareIdx,",
+		New: "validatorapi.NewComponent(eth2Cl, map[core.PubKey]map[int]tbls.PublicKey{}, nodeIdx.ShareIdx,"},
+	{ID: "C10-H6-shares-of-first-validator", File: "app/app.go", Expect: "H6|share table entry",
+		Old: "\t\tfor i, b := range val.PubShares {",
+		New: "\t\tfor i, b := range lock.Validators[0].PubShares {"},
+}
+
+func init() {
+	// C01 re-uses H1/H3 (crosslinks.go): keep positive examples on that side too.
+	Extend("C01", "", func(*rt.Ctx) {},
+		Mutant{ID: "C01-link-exit-stored-unverified", File: c10VapiFile, Expect: "C10.H1|SubmitVoluntaryExit",
+			Old: "\t// Verify voluntary exit signature\n\terr = c.verifyPartialSig(ctx, parSigData, pubkey)\n\tif err != nil {\n\t\treturn err\n\t}",
+			New: "\t// Verify voluntary exit signature\n\tif !c.builderEnabled {\n\t\terr = c.verifyPartialSig(ctx, parSigData, pubkey)\n\t\tif err != nil {\n\t\t\treturn err\n\t\t}\n\t}"},
+		Mutant{ID: "C01-link-randao-verified-under-other-key", File: c10VapiFile, Expect: "C10.H1|Proposal",
+			Old: "\terr = c.verifyPartialSig(ctx, parSig, pubkey)\n\tif err != nil {\n\t\treturn nil, err\n\t}\n\n\tfor _, sub := range c.subs {",
+			New: "\terr = c.verifyPartialSig(ctx, parSig, pubkey)\n\tif err != nil {\n\t\treturn nil, err\n\t}\n\n\tpubkey = core.PubKey(opts.Graffiti[:])\n\n\tfor _, sub := range c.subs {"},
+		Mutant{ID: "C01-link-parsigex-verify-every-other", File: c10PSXFile, Expect: "C10.H3|verifyFunc",
+			Old: "\tfor pubkey, data := range set {\n",
+			New: "\tfor pubkey, data := range set {\n\t\tif len(pubkey)%2 == 1 {\n\t\t\tcontinue\n\t\t}\n"},
+		Mutant{ID: "C01-link-parsigex-gater-result-dropped", File: c10PSXFile, Expect: "C10.H3|gaterFunc",
+			Old: "\tif !m.gaterFunc(duty) {\n\t\treturn nil, false, errors.New(\"invalid duty\")\n\t}\n",
+			New: "\tif !m.gaterFunc(duty) {\n\t\tlog.Debug(ctx, \"invalid duty\")\n\t}\n"})
 }
